@@ -17,118 +17,250 @@ VM state `st` (any value stack, any captures / output / block bookkeeping; the e
 Induction on the evaluator's fuel (every recursive call of `evalExpr` is at `fuel`), generalised
 over the code position, the loop context and the VM state.
 -/
-import TeraModel.Lemmas.RefineInstr2
+import TeraModel.Lemmas.RefineInstr6
 namespace Tera.Refine
 open Tera Tera.Vm Tera.Compiler
 
+/-- the expression of an array entry -/
+def entryExpr : ArrayEntry → Expr
+  | .item e => e
+  | .spread e => e
+
+/-- the value expression of a map entry -/
+def mapEntryExpr : MapEntry → Expr
+  | .keyValue _ e => e
+  | .spread e => e
+
 /-- The expressions `expr_sim` covers. -/
-inductive InCore : Expr → Prop
-  | const (v : Value) : InCore (.const v)
-  | var (n : String) : InCore (.var n)
-  | getAttr {e : Expr} (n : String) (opt : Bool) : InCore e → InCore (.getAttr e n opt)
-  | unary {e : Expr} (op : UnaryOperator) : InCore e → InCore (.unary op e)
+inductive InCore (lf : Bool) : Expr → Prop
+  | const (v : Value) : InCore lf (.const v)
+  | var (n : String) : InCore lf (.var n)
+  | getAttr {e : Expr} (n : String) (opt : Bool) : InCore lf e → InCore lf (.getAttr e n opt)
+  | unary {e : Expr} (op : UnaryOperator) : InCore lf e → InCore lf (.unary op e)
   /-- `* / // % + - ** < > <= >= == != ~ in` -/
-  | binary {l r : Expr} (op : BinaryOperator) : strictOp op = true → InCore l → InCore r →
-      InCore (.binary op l r)
-  | and {l r : Expr} : InCore l → InCore r → InCore (.binary .And l r)
-  | or {l r : Expr} : InCore l → InCore r → InCore (.binary .Or l r)
-  | ternary {c t f : Expr} : InCore c → InCore t → InCore f → InCore (.ternary c t f)
-  | getItem {e s : Expr} (opt : Bool) : InCore e → InCore s → InCore (.getItem e s opt)
-  | slice {e : Expr} {start stop step : Option Expr} (opt : Bool) : InCore e →
-      (∀ x, start = some x → InCore x) → (∀ x, stop = some x → InCore x) →
-      (∀ x, step = some x → InCore x) → InCore (.slice e start stop step opt)
+  | binary {l r : Expr} (op : BinaryOperator) : strictOp op = true → InCore lf l → InCore lf r →
+      InCore lf (.binary op l r)
+  | and {l r : Expr} : InCore lf l → InCore lf r → InCore lf (.binary .And l r)
+  | or {l r : Expr} : InCore lf l → InCore lf r → InCore lf (.binary .Or l r)
+  | ternary {c t f : Expr} : InCore lf c → InCore lf t → InCore lf f → InCore lf (.ternary c t f)
+  | getItem {e s : Expr} (opt : Bool) : InCore lf e → InCore lf s → InCore lf (.getItem e s opt)
+  | slice {e : Expr} {start stop step : Option Expr} (opt : Bool) : InCore lf e →
+      (∀ x, start = some x → InCore lf x) → (∀ x, stop = some x → InCore lf x) →
+      (∀ x, step = some x → InCore lf x) → InCore lf (.slice e start stop step opt)
+  /-- array literals, with or without `...spread` entries -/
+  | array {items : List ArrayEntry} : (∀ it ∈ items, InCore lf (entryExpr it)) → InCore lf (.array items)
+  /-- map literals, with or without `...spread` entries -/
+  | map {entries : List MapEntry} : (∀ en ∈ entries, InCore lf (mapEntryExpr en)) → InCore lf (.map entries)
+  /-- `e | name(k = v, …)`: keyword-argument names are distinct (the parser rejects a repeated
+  name); which filters exist and what they do is the table `BuiltinsRel` relates -/
+  | filter {e : Expr} (name : String) {kwargs : List (String × Expr)} : InCore lf e →
+      (∀ p ∈ kwargs, InCore lf p.2) → (kwargs.map (·.1)).Nodup → InCore lf (.filter e name kwargs)
+  /-- `e is name(k = v, …)` -/
+  | test {e : Expr} (name : String) {kwargs : List (String × Expr)} : InCore lf e →
+      (∀ p ∈ kwargs, InCore lf p.2) → (kwargs.map (·.1)).Nodup → InCore lf (.test e name kwargs)
+  /-- `[e for key, value in target if cond]` (only outside the loop-free core) -/
+  | compr {e target : Expr} (key : Option String) (value : String) {cond : Option Expr} :
+      lf = false → InCore lf e → InCore lf target → (∀ x, cond = some x → InCore lf x) →
+      InCore lf (.listComprehension e key value target cond)
+  /-- `name(k = v, …)` -/
+  | functionCall (name : String) {kwargs : List (String × Expr)} :
+      (∀ p ∈ kwargs, InCore lf p.2) → (kwargs.map (·.1)).Nodup → InCore lf (.functionCall name kwargs)
+
+/-! ### the code of a list comprehension, in three pieces -/
+
+/-- between `Iterate` and the closing `Jump`: `[cond; PopJumpIfFalse(→ the Jump);] expr; AppendToList` -/
+def comprBody (startIdx : Nat) (loop : Option Nat) (e : Expr) (cond : Option Expr) : Code :=
+  let cc := condCode (startIdx + 1) loop cond
+  let exprIdx := startIdx + 1 + cc.length + (if cond.isSome then 1 else 0)
+  let ce := exprCode exprIdx loop e
+  let skip := if cond.isSome then [ns (.popJumpIfFalse (exprIdx + ce.length + 1))] else []
+  cc ++ skip ++ ce ++ [ns .appendToList]
+
+/-- `Iterate(loop_end)`, the body, `Jump(start_idx)` -/
+def comprLoop (startIdx : Nat) (loop : Option Nat) (e : Expr) (cond : Option Expr) : Code :=
+  [ns (.iterate (startIdx + 1 + (comprBody startIdx loop e cond).length + 1))]
+    ++ comprBody startIdx loop e cond ++ [ns (.jump startIdx)]
+
+/-- `BuildList(0)`, the iterable, `StartIterateComprehension`, the `StoreLocal`s -/
+def comprPre (base : Nat) (loop : Option Nat) (key : Option String) (value : String) (target : Expr) :
+    Code :=
+  [sp (.buildList 0)] ++ exprCode (base + 1) loop target
+    ++ [ns (.startIterateComprehension key.isSome), ns (.storeLocal value)] ++ keyStore key
+
+theorem exprCode_compr (base : Nat) (loop : Option Nat) (e : Expr) (key : Option String)
+    (value : String) (target : Expr) (cond : Option Expr) :
+    exprCode base loop (.listComprehension e key value target cond)
+      = comprPre base loop key value target
+        ++ comprLoop (base + (comprPre base loop key value target).length) loop e cond
+        ++ [ns .popLoop] := by
+  simp only [exprCode, comprPre, comprLoop, comprBody, List.append_assoc, List.cons_append,
+    List.nil_append]
+
+theorem comprBody_none (s : Nat) (loop : Option Nat) (e : Expr) :
+    comprBody s loop e none = exprCode (s + 1) loop e ++ [ns .appendToList] := by
+  simp [comprBody, condCode]
+
+theorem comprBody_some (s : Nat) (loop : Option Nat) (e cnd : Expr) :
+    comprBody s loop e (some cnd)
+      = exprCode (s + 1) loop cnd
+        ++ [ns (.popJumpIfFalse (s + 1 + (exprCode (s + 1) loop cnd).length + 1
+              + (exprCode (s + 1 + (exprCode (s + 1) loop cnd).length + 1) loop e).length + 1))]
+        ++ exprCode (s + 1 + (exprCode (s + 1) loop cnd).length + 1) loop e ++ [ns .appendToList] := by
+  simp [comprBody, condCode]
 
 section
-variable (rec : VmCtx → Chunk → State → RunRes) (venv : Vm.Env) (vm : VmCtx) (c : Chunk)
+variable (venv : Vm.Env) (vm : VmCtx) (c : Chunk) (lf : Bool)
 
 /-- What the VM does on the code (at `base`, `len` instructions) of an expression whose evaluator
 result is `r`, started in state `st`. -/
 def ExprOutcome (r : Except Err Value) (base len : Nat) (st : State) : Prop :=
   match r with
-  | .ok v => ∃ tr rg, Run rec venv vm c base st tr (base + len) (st.push v rg) ∧ SpanOk c rg
-      ∧ Within base (base + len) tr ∧ tr.length ≤ len
+  | .ok v => ∃ tr rg, Run venv vm c base st tr (base + len) (st.push v rg) ∧ SpanOk c rg
+      ∧ Within base (base + len) tr ∧ (lf = true → tr.length ≤ len)
   | .error err => reportable err = true →
-      ∃ tr re, Fails rec venv vm c base st tr re ∧ errMatch err re = true
-        ∧ Within base (base + len) tr ∧ tr.length ≤ len
+      ∃ tr re, Fails venv vm c base st tr re ∧ errMatch err re = true
+        ∧ Within base (base + len) tr ∧ (lf = true → tr.length ≤ len)
 end
 
 section
-variable (rec : VmCtx → Chunk → State → RunRes) (venv : Vm.Env) (vm : VmCtx) (c : Chunk)
+variable (venv : Vm.Env) (vm : VmCtx) (c : Chunk) (lf : Bool)
 
 /-- The same for an optional slice bound (`optExprCode`): the slot pushed stands for the
 evaluator's bound value (`BoundRel`: the compiler's default constants have no span and the default
 step is `1i64` where the evaluator says `1u64`). -/
 def OptOutcome (r : Except Err Value) (base len : Nat) (st : State) : Prop :=
   match r with
-  | .ok v => ∃ tr w rg, Run rec venv vm c base st tr (base + len) (st.push w rg) ∧ BoundRel c v w rg
-      ∧ Within base (base + len) tr ∧ tr.length ≤ len
+  | .ok v => ∃ tr w rg, Run venv vm c base st tr (base + len) (st.push w rg) ∧ BoundRel c v w rg
+      ∧ Within base (base + len) tr ∧ (lf = true → tr.length ≤ len)
   | .error err => reportable err = true →
-      ∃ tr re, Fails rec venv vm c base st tr re ∧ errMatch err re = true
-        ∧ Within base (base + len) tr ∧ tr.length ≤ len
+      ∃ tr re, Fails venv vm c base st tr re ∧ errMatch err re = true
+        ∧ Within base (base + len) tr ∧ (lf = true → tr.length ≤ len)
+
+/-- The entries of an array literal (`arrayItemsCode`): one slot per entry is pushed. -/
+def ArrOutcome (r : Except Err (List (Bool × Value))) (base len : Nat) (st : State) : Prop :=
+  match r with
+  | .ok parts => ∃ tr stk, Run venv vm c base st tr (base + len) { st with stack := stk }
+      ∧ ArrStack c parts st.stack stk ∧ Within base (base + len) tr ∧ (lf = true → tr.length ≤ len)
+  | .error err => reportable err = true →
+      ∃ tr re, Fails venv vm c base st tr re ∧ errMatch err re = true
+        ∧ Within base (base + len) tr ∧ (lf = true → tr.length ≤ len)
+
+/-- The entries of a map literal (`mapItemsCode`). -/
+def MapOutcome (r : Except Err (List (Option Key × Value))) (base len : Nat) (st : State) : Prop :=
+  match r with
+  | .ok parts => ∃ tr stk, Run venv vm c base st tr (base + len) { st with stack := stk }
+      ∧ MapStack c parts st.stack stk ∧ Within base (base + len) tr ∧ (lf = true → tr.length ≤ len)
+  | .error err => reportable err = true →
+      ∃ tr re, Fails venv vm c base st tr re ∧ errMatch err re = true
+        ∧ Within base (base + len) tr ∧ (lf = true → tr.length ≤ len)
+
+/-- Keyword arguments (`kwargsCode`): per argument the name constant and the value are pushed. -/
+def KwOutcome (r : Except Err (List (String × Value))) (base len : Nat) (st : State) : Prop :=
+  match r with
+  | .ok kw => ∃ tr stk, Run venv vm c base st tr (base + len) { st with stack := stk }
+      ∧ MapStack c (kwParts kw) st.stack stk ∧ Within base (base + len) tr ∧ (lf = true → tr.length ≤ len)
+  | .error err => reportable err = true →
+      ∃ tr re, Fails venv vm c base st tr re ∧ errMatch err re = true
+        ∧ Within base (base + len) tr ∧ (lf = true → tr.length ≤ len)
+
+/-- The loop of a list comprehension (`comprLoop`, `len` instructions at `startIdx`), entered with
+the accumulator `acc` on top of the stack: it ends at `startIdx + len` (the `PopLoop`) with the
+evaluator's list there instead, in a scope that differs from the initial one in the innermost
+loop only. -/
+def ComprOutcome (r : Except Err (List Value)) (startIdx len : Nat) (st : State) (acc : List Value)
+    (rl : SpanRange) : Prop :=
+  match r with
+  | .ok res => ∃ tr sc', Run venv vm c startIdx (st.push (.arr acc) rl) tr (startIdx + len)
+        { st.push (.arr res) rl with scope := sc' }
+      ∧ sc'.popLoop = st.scope.popLoop ∧ Within startIdx (startIdx + len) tr
+  | .error err => reportable err = true →
+      ∃ tr re, Fails venv vm c startIdx (st.push (.arr acc) rl) tr re ∧ errMatch err re = true
+        ∧ Within startIdx (startIdx + len) tr
 
 variable (eenv : Tera.Env)
 
 /-- the simulation statements at one level of evaluator fuel -/
 structure SimAt (fuel : Nat) : Prop where
-  expr : ∀ (e : Expr), InCore e → ∀ (base : Nat) (loop : Option Nat) (st : State),
+  expr : ∀ (e : Expr), InCore lf e → ∀ (base : Nat) (loop : Option Nat) (st : State) (sc : Scope), ScopeSim sc st.scope →
     CodeAt c base (exprCode base loop e) →
-    ExprOutcome rec venv vm c (evalExpr fuel eenv st.scope e) base (exprCode base loop e).length st
-  opt : ∀ (oe : Option Expr), (∀ x, oe = some x → InCore x) →
-    ∀ (base : Nat) (loop : Option Nat) (w dv : Value) (st : State),
+    ExprOutcome venv vm c lf (evalExpr fuel eenv sc e) base (exprCode base loop e).length st
+  opt : ∀ (oe : Option Expr), (∀ x, oe = some x → InCore lf x) →
+    ∀ (base : Nat) (loop : Option Nat) (w dv : Value) (st : State) (sc : Scope), ScopeSim sc st.scope →
     CodeAt c base (optExprCode base loop (.loadConst w) oe) →
     (∃ b, Tera.sliceBound dv = .ok b ∧ Vm.sliceBound w = .val b) →
-    OptOutcome rec venv vm c (evalOpt fuel eenv st.scope oe dv) base
+    OptOutcome venv vm c lf (evalOpt fuel eenv sc oe dv) base
       (optExprCode base loop (.loadConst w) oe).length st
+  arr : ∀ (items : List ArrayEntry), (∀ it ∈ items, InCore lf (entryExpr it)) →
+    ∀ (base : Nat) (loop : Option Nat) (st : State) (sc : Scope), ScopeSim sc st.scope →
+    CodeAt c base (arrayItemsCode base loop items) →
+    ArrOutcome venv vm c lf (evalArrayEntries fuel eenv sc items) base
+      (arrayItemsCode base loop items).length st
+  mapE : ∀ (entries : List MapEntry), (∀ en ∈ entries, InCore lf (mapEntryExpr en)) →
+    ∀ (base : Nat) (loop : Option Nat) (st : State) (sc : Scope), ScopeSim sc st.scope →
+    CodeAt c base (mapItemsCode base loop entries) →
+    MapOutcome venv vm c lf (evalMapEntries fuel eenv sc entries) base
+      (mapItemsCode base loop entries).length st
+  kw : ∀ (kwargs : List (String × Expr)), (∀ p ∈ kwargs, InCore lf p.2) →
+    ∀ (base : Nat) (loop : Option Nat) (st : State) (sc : Scope), ScopeSim sc st.scope →
+    CodeAt c base (kwargsCode base loop kwargs) →
+    KwOutcome venv vm c lf (evalKwargs fuel eenv sc kwargs) base
+      (kwargsCode base loop kwargs).length st
+  compr : ∀ (e : Expr) (cond : Option Expr), InCore lf e → (∀ x, cond = some x → InCore lf x) →
+    ∀ (startIdx : Nat) (loop : Option Nat) (st : State) (sc : Scope) (acc : List Value)
+      (rl : SpanRange), ScopeSim sc st.scope →
+    CodeAt c startIdx (comprLoop startIdx loop e cond) →
+    ComprOutcome venv vm c (evalCompr fuel eenv sc e cond acc) startIdx
+      (comprLoop startIdx loop e cond).length st acc rl
 end
 
 section
-variable {rec : VmCtx → Chunk → State → RunRes} {venv : Vm.Env} {vm : VmCtx} {c : Chunk}
-  {eenv : Tera.Env}
+variable {venv : Vm.Env} {vm : VmCtx} {c : Chunk}
+  {eenv : Tera.Env} {lf : Bool}
 
 theorem ExprOutcome.ok_intro {v : Value} {base len : Nat} {st : State} (tr : List Nat)
-    (rg : SpanRange) {pc' : Nat} (h : Run rec venv vm c base st tr pc' (st.push v rg))
+    (rg : SpanRange) {pc' : Nat} (h : Run venv vm c base st tr pc' (st.push v rg))
     (hpc : pc' = base + len) (hsp : SpanOk c rg) (hw : Within base (base + len) tr)
-    (hl : tr.length ≤ len) : ExprOutcome rec venv vm c (.ok v) base len st := by
+    (hl : lf = true → tr.length ≤ len) : ExprOutcome venv vm c lf (.ok v) base len st := by
   subst hpc
   exact ⟨tr, rg, h, hsp, hw, hl⟩
 
 theorem ExprOutcome.error_intro {err : Err} {base len : Nat} {st : State} (tr : List Nat)
-    (re : RErr) (h : Fails rec venv vm c base st tr re) (hm : errMatch err re = true)
-    (hw : Within base (base + len) tr) (hl : tr.length ≤ len) :
-    ExprOutcome rec venv vm c (.error err) base len st :=
+    (re : RErr) (h : Fails venv vm c base st tr re) (hm : errMatch err re = true)
+    (hw : Within base (base + len) tr) (hl : lf = true → tr.length ≤ len) :
+    ExprOutcome venv vm c lf (.error err) base len st :=
   fun _ => ⟨tr, re, h, hm, hw, hl⟩
 
 /-- a sub-expression's error, reached after the run `tr0`, is the whole expression's error -/
 theorem ExprOutcome.error_of_sub {err : Err} {base len base1 len1 : Nat} {st st1 : State}
-    {tr0 : List Nat} (hsub : ExprOutcome rec venv vm c (.error err) base1 len1 st1)
-    (hrun : Run rec venv vm c base st tr0 base1 st1) (hw0 : Within base (base + len) tr0)
-    (hb : base ≤ base1) (hl : base1 + len1 ≤ base + len) (hlen : tr0.length + len1 ≤ len) :
-    ExprOutcome rec venv vm c (.error err) base len st := by
+    {tr0 : List Nat} (hsub : ExprOutcome venv vm c lf (.error err) base1 len1 st1)
+    (hrun : Run venv vm c base st tr0 base1 st1) (hw0 : Within base (base + len) tr0)
+    (hb : base ≤ base1) (hl : base1 + len1 ≤ base + len) (hlen : lf = true → tr0.length + len1 ≤ len) :
+    ExprOutcome venv vm c lf (.error err) base len st := by
   intro hrep
   obtain ⟨tr, re, hf, hm, hw, hl1⟩ := hsub hrep
   refine ⟨tr0 ++ tr, re, hrun.fails hf, hm, hw0.append (hw.mono hb hl), ?_⟩
-  simp only [List.length_append]; omega
+  bnd
 
 /-- a sub-expression in tail position: reached by the run `tr0` that leaves the state as it was,
 followed by the state-preserving run `tr2` to the end of the code -/
 theorem ExprOutcome.tail {r : Except Err Value} {base len base1 len1 : Nat} {st : State}
-    {tr0 tr2 : List Nat} (hsub : ExprOutcome rec venv vm c r base1 len1 st)
-    (hpre : Run rec venv vm c base st tr0 base1 st) (hw0 : Within base (base + len) tr0)
-    (hpost : ∀ st', Run rec venv vm c (base1 + len1) st' tr2 (base + len) st')
+    {tr0 tr2 : List Nat} (hsub : ExprOutcome venv vm c lf r base1 len1 st)
+    (hpre : Run venv vm c base st tr0 base1 st) (hw0 : Within base (base + len) tr0)
+    (hpost : ∀ st', Run venv vm c (base1 + len1) st' tr2 (base + len) st')
     (hw2 : Within base (base + len) tr2)
     (hb : base ≤ base1) (hl : base1 + len1 ≤ base + len)
-    (hlen : tr0.length + len1 + tr2.length ≤ len) :
-    ExprOutcome rec venv vm c r base len st := by
+    (hlen : lf = true → tr0.length + len1 + tr2.length ≤ len) :
+    ExprOutcome venv vm c lf r base len st := by
   cases r with
-  | error err => exact ExprOutcome.error_of_sub hsub hpre hw0 hb hl (by omega)
+  | error err => exact ExprOutcome.error_of_sub hsub hpre hw0 hb hl (by bnd)
   | ok v =>
     obtain ⟨tr1, rg, hrun, hsp, hw1, hl1⟩ := hsub
     refine ⟨tr0 ++ tr1 ++ tr2, rg, (hpre.trans hrun).trans (hpost _), hsp,
       (hw0.append (hw1.mono hb hl)).append hw2, ?_⟩
-    simp only [List.length_append]; omega
+    bnd
 
 theorem Run.cast {pc : Nat} {st : State} {tr : List Nat} {pc' pc'' : Nat} {st' : State}
-    (h : Run rec venv vm c pc st tr pc' st') (e : pc' = pc'') : Run rec venv vm c pc st tr pc'' st' :=
+    (h : Run venv vm c pc st tr pc' st') (e : pc' = pc'') : Run venv vm c pc st tr pc'' st' :=
   e ▸ h
 
 /-! ### code shapes -/
@@ -187,172 +319,285 @@ theorem evalExpr_slice_ok (fuel : Nat) (eenv : Tera.Env) (sc : Scope) (e : Expr)
   simp only [evalExpr, h0, h1, h2, h3, sliceTail]
   rfl
 
-theorem OptOutcome.error_to_expr {rec : VmCtx → Chunk → State → RunRes} {venv : Vm.Env}
+theorem OptOutcome.error_to_expr {venv : Vm.Env}
     {vm : VmCtx} {c : Chunk} {err : Err} {base len : Nat} {st : State}
-    (h : OptOutcome rec venv vm c (.error err) base len st) :
-    ExprOutcome rec venv vm c (.error err) base len st := h
+    (h : OptOutcome venv vm c lf (.error err) base len st) :
+    ExprOutcome venv vm c lf (.error err) base len st := h
+
+theorem evalArrayEntries_flags (eenv : Tera.Env) (sc : Scope) :
+    ∀ (items : List ArrayEntry) (fuel : Nat) (parts : List (Bool × Value)),
+      evalArrayEntries fuel eenv sc items = .ok parts →
+      parts.map (·.1) = items.map ArrayEntry.isSpread := by
+  intro items
+  induction items with
+  | nil =>
+    intro fuel parts h
+    cases fuel with
+    | zero => simp [evalArrayEntries] at h
+    | succ f => simp only [evalArrayEntries, Except.ok.injEq] at h; subst h; rfl
+  | cons entry rest ih =>
+    intro fuel parts h
+    cases fuel with
+    | zero => simp [evalArrayEntries] at h
+    | succ f =>
+      cases entry with
+      | item e =>
+        simp only [evalArrayEntries] at h
+        cases hr : evalExpr f eenv sc e with
+        | error x => simp [hr] at h
+        | ok v =>
+          simp only [hr] at h
+          cases hr2 : evalArrayEntries f eenv sc rest with
+          | error x => simp [hr2, Except.map] at h
+          | ok parts' =>
+            simp only [hr2, Except.map, Except.ok.injEq] at h
+            subst h
+            simp [ih f parts' hr2, ArrayEntry.isSpread]
+      | spread e =>
+        simp only [evalArrayEntries] at h
+        cases hr : evalExpr f eenv sc e with
+        | error x => simp [hr] at h
+        | ok v =>
+          simp only [hr] at h
+          cases hr2 : evalArrayEntries f eenv sc rest with
+          | error x => simp [hr2, Except.map] at h
+          | ok parts' =>
+            simp only [hr2, Except.map, Except.ok.injEq] at h
+            subst h
+            simp [ih f parts' hr2, ArrayEntry.isSpread]
+
+theorem evalMapEntries_flags (eenv : Tera.Env) (sc : Scope) :
+    ∀ (entries : List MapEntry) (fuel : Nat) (parts : List (Option Key × Value)),
+      evalMapEntries fuel eenv sc entries = .ok parts →
+      parts.map (·.1.isNone) = entries.map MapEntry.isSpread := by
+  intro entries
+  induction entries with
+  | nil =>
+    intro fuel parts h
+    cases fuel with
+    | zero => simp [evalMapEntries] at h
+    | succ f => simp only [evalMapEntries, Except.ok.injEq] at h; subst h; rfl
+  | cons entry rest ih =>
+    intro fuel parts h
+    cases fuel with
+    | zero => simp [evalMapEntries] at h
+    | succ f =>
+      cases entry with
+      | keyValue k e =>
+        simp only [evalMapEntries] at h
+        cases hr : evalExpr f eenv sc e with
+        | error x => simp [hr] at h
+        | ok v =>
+          simp only [hr] at h
+          cases hr2 : evalMapEntries f eenv sc rest with
+          | error x => simp [hr2, Except.map] at h
+          | ok parts' =>
+            simp only [hr2, Except.map, Except.ok.injEq] at h
+            subst h
+            simp [ih f parts' hr2, MapEntry.isSpread]
+      | spread e =>
+        simp only [evalMapEntries] at h
+        cases hr : evalExpr f eenv sc e with
+        | error x => simp [hr] at h
+        | ok v =>
+          simp only [hr] at h
+          cases hr2 : evalMapEntries f eenv sc rest with
+          | error x => simp [hr2, Except.map] at h
+          | ok parts' =>
+            simp only [hr2, Except.map, Except.ok.injEq] at h
+            subst h
+            simp [ih f parts' hr2, MapEntry.isSpread]
+
+theorem evalKwargs_names (eenv : Tera.Env) (sc : Scope) :
+    ∀ (kwargs : List (String × Expr)) (fuel : Nat) (kw : List (String × Value)),
+      evalKwargs fuel eenv sc kwargs = .ok kw → kw.map (·.1) = kwargs.map (·.1) := by
+  intro kwargs
+  induction kwargs with
+  | nil =>
+    intro fuel kw h
+    cases fuel with
+    | zero => simp [evalKwargs] at h
+    | succ f => simp only [evalKwargs, Except.ok.injEq] at h; subst h; rfl
+  | cons entry rest ih =>
+    intro fuel kw h
+    obtain ⟨n, e⟩ := entry
+    cases fuel with
+    | zero => simp [evalKwargs] at h
+    | succ f =>
+      simp only [evalKwargs] at h
+      cases hr : evalExpr f eenv sc e with
+      | error x => simp [hr] at h
+      | ok v =>
+        simp only [hr] at h
+        cases hr2 : evalKwargs f eenv sc rest with
+        | error x => simp [hr2, Except.map] at h
+        | ok kw' =>
+          simp only [hr2, Except.map, Except.ok.injEq] at h
+          subst h
+          simp [ih f kw' hr2]
 
 /-! ### the simulation -/
 
-theorem expr_step (hE : EnvRel venv eenv) (ht : reportTargetOk venv vm c = true) (fuel : Nat)
-    (H : SimAt rec venv vm c eenv fuel) :
-    ∀ (e : Expr), InCore e → ∀ (base : Nat) (loop : Option Nat) (st : State),
+theorem expr_step (hE : EnvRel venv eenv) (hB : BuiltinsRel venv eenv)
+    (ht : reportTargetOk venv vm c = true) (fuel : Nat) (H : SimAt venv vm c lf eenv fuel) :
+    ∀ (e : Expr), InCore lf e → ∀ (base : Nat) (loop : Option Nat) (st : State) (sc : Scope), ScopeSim sc st.scope →
       CodeAt c base (exprCode base loop e) →
-      ExprOutcome rec venv vm c (evalExpr (fuel + 1) eenv st.scope e) base (exprCode base loop e).length st := by
+      ExprOutcome venv vm c lf (evalExpr (fuel + 1) eenv sc e) base (exprCode base loop e).length st := by
   have ih := H.expr
   · intro e hcore
     cases hcore with
     | const v =>
-      intro base loop st hcode
+      intro base loop st sc hsc hcode
       simp only [exprCode, CodeAt] at hcode
       simp only [evalExpr, exprCode, List.length_singleton]
       exact .ok_intro [base] (base, base) (run_loadConst hcode.1 st) rfl (spanOk_own hcode.1)
-        (Within.single (Nat.le_refl _) (by omega)) (by simp)
+        (Within.single (Nat.le_refl _) (by bnd)) (by bnd)
     | var n =>
-      intro base loop st hcode
+      intro base loop st sc hsc hcode
       simp only [exprCode, CodeAt] at hcode
       simp only [evalExpr, exprCode, List.length_singleton]
       cases hn : (n == "__tera_context")
       · simp only [Bool.false_eq_true, if_false]
+        rw [hsc.getValue n]
         exact .ok_intro [base] (base, base) (run_loadName hcode.1 st hn) rfl (spanOk_own hcode.1)
-          (Within.single (Nat.le_refl _) (by omega)) (by simp)
+          (Within.single (Nat.le_refl _) (by bnd)) (by bnd)
       · simp only [if_true]
         intro h; simp [reportable] at h
     | @getAttr e1 n opt h1 =>
-      intro base loop st hcode
+      intro base loop st sc hsc hcode
       simp only [exprCode] at hcode ⊢
       rw [CodeAt.append] at hcode
       obtain ⟨hc1, hc2⟩ := hcode
-      have IH := ih e1 h1 base loop st hc1
+      have IH := ih e1 h1 base loop st sc hsc hc1
       simp only [evalExpr, List.length_append, List.length_singleton]
-      cases hr : evalExpr fuel eenv st.scope e1 with
+      cases hr : evalExpr fuel eenv sc e1 with
       | error err =>
         rw [hr] at IH
-        exact IH.error_of_sub (Run.nil _ _) Within.nil (Nat.le_refl _) (by omega) (by simp only [List.length_nil]; omega)
+        exact IH.error_of_sub (Run.nil _ _) Within.nil (Nat.le_refl _) (by bnd) (by bnd)
       | ok a =>
         rw [hr] at IH
         obtain ⟨tr1, rg1, hrun1, hsp1, hw1, hl1⟩ := IH
         have hent := CodeAt.single.mp hc2
-        have hA := attr_sim (rec := rec) hent ht st a rg1 hsp1
+        have hA := attr_sim hent ht st a rg1 hsp1
         have hown : SpanOk c (base + (exprCode base loop e1).length, base + (exprCode base loop e1).length) := by
           cases opt <;> exact spanOk_own hent
         simp only
         by_cases hb1 : (opt && (a.isUndef || a.isNone)) = true
         · rw [if_pos hb1] at hA ⊢
-          exact .ok_intro (tr1 ++ [_]) _ (hrun1.trans hA) (by omega) hown
-            ((hw1.mono (Nat.le_refl _) (by omega)).append (Within.single (by omega) (by omega)))
-            (by simp only [List.length_append, List.length_singleton]; omega)
+          exact .ok_intro (tr1 ++ [_]) _ (hrun1.trans hA) (by bnd) hown
+            ((hw1.mono (Nat.le_refl _) (by bnd)).append (Within.single (by bnd) (by bnd)))
+            (by bnd)
         · rw [if_neg hb1] at hA ⊢
           by_cases hb2 : a.isUndef = true
           · rw [if_pos hb2] at hA ⊢
             exact .error_intro (tr1 ++ [_]) _ (hrun1.fails hA) (by simp [errMatch])
-              ((hw1.mono (Nat.le_refl _) (by omega)).append (Within.single (by omega) (by omega)))
-              (by simp only [List.length_append, List.length_singleton]; omega)
+              ((hw1.mono (Nat.le_refl _) (by bnd)).append (Within.single (by bnd) (by bnd)))
+              (by bnd)
           · rw [if_neg hb2] at hA ⊢
-            exact .ok_intro (tr1 ++ [_]) _ (hrun1.trans hA) (by omega) hown
-              ((hw1.mono (Nat.le_refl _) (by omega)).append (Within.single (by omega) (by omega)))
-              (by simp only [List.length_append, List.length_singleton]; omega)
+            exact .ok_intro (tr1 ++ [_]) _ (hrun1.trans hA) (by bnd) hown
+              ((hw1.mono (Nat.le_refl _) (by bnd)).append (Within.single (by bnd) (by bnd)))
+              (by bnd)
     | @unary e1 op h1 =>
-      intro base loop st hcode
+      intro base loop st sc hsc hcode
       simp only [exprCode] at hcode ⊢
       rw [CodeAt.append] at hcode
       obtain ⟨hc1, hc2⟩ := hcode
-      have IH := ih e1 h1 base loop st hc1
+      have IH := ih e1 h1 base loop st sc hsc hc1
       have hent := CodeAt.single.mp hc2
       simp only [List.length_append, List.length_singleton]
       cases op with
       | Not =>
         simp only [evalExpr]
-        cases hr : evalExpr fuel eenv st.scope e1 with
+        cases hr : evalExpr fuel eenv sc e1 with
         | error err =>
           rw [hr] at IH
-          exact IH.error_of_sub (Run.nil _ _) Within.nil (Nat.le_refl _) (by omega) (by simp only [List.length_nil]; omega)
+          exact IH.error_of_sub (Run.nil _ _) Within.nil (Nat.le_refl _) (by bnd) (by bnd)
         | ok a =>
           rw [hr] at IH
           obtain ⟨tr1, rg1, hrun1, hsp1, hw1, hl1⟩ := IH
-          exact .ok_intro (tr1 ++ [_]) _ (hrun1.trans (run_not hent st a rg1)) (by omega) hsp1
-            ((hw1.mono (Nat.le_refl _) (by omega)).append (Within.single (by omega) (by omega)))
-            (by simp only [List.length_append, List.length_singleton]; omega)
+          exact .ok_intro (tr1 ++ [_]) _ (hrun1.trans (run_not hent st a rg1)) (by bnd) hsp1
+            ((hw1.mono (Nat.le_refl _) (by bnd)).append (Within.single (by bnd) (by bnd)))
+            (by bnd)
       | Minus =>
         simp only [evalExpr]
-        cases hr : evalExpr fuel eenv st.scope e1 with
+        cases hr : evalExpr fuel eenv sc e1 with
         | error err =>
           rw [hr] at IH
-          exact IH.error_of_sub (Run.nil _ _) Within.nil (Nat.le_refl _) (by omega) (by simp only [List.length_nil]; omega)
+          exact IH.error_of_sub (Run.nil _ _) Within.nil (Nat.le_refl _) (by bnd) (by bnd)
         | ok a =>
           rw [hr] at IH
           obtain ⟨tr1, rg1, hrun1, hsp1, hw1, hl1⟩ := IH
-          have hN := negative_sim (rec := rec) hent hE ht st a rg1 hsp1
+          have hN := negative_sim hent hE ht st a rg1 hsp1
           simp only
           cases hn : liftNum (negate eenv.F a) with
           | ok v =>
             rw [hn] at hN
-            exact .ok_intro (tr1 ++ [_]) _ (hrun1.trans hN) (by omega) hsp1
-              ((hw1.mono (Nat.le_refl _) (by omega)).append (Within.single (by omega) (by omega)))
-              (by simp only [List.length_append, List.length_singleton]; omega)
+            exact .ok_intro (tr1 ++ [_]) _ (hrun1.trans hN) (by bnd) hsp1
+              ((hw1.mono (Nat.le_refl _) (by bnd)).append (Within.single (by bnd) (by bnd)))
+              (by bnd)
           | error err =>
             rw [hn] at hN
             obtain ⟨re, hf, hm⟩ := hN
             exact .error_intro (tr1 ++ [_]) _ (hrun1.fails hf) hm
-              ((hw1.mono (Nat.le_refl _) (by omega)).append (Within.single (by omega) (by omega)))
-              (by simp only [List.length_append, List.length_singleton]; omega)
+              ((hw1.mono (Nat.le_refl _) (by bnd)).append (Within.single (by bnd) (by bnd)))
+              (by bnd)
     | @binary l r op hop hl hr =>
-      intro base loop st hcode
+      intro base loop st sc hsc hcode
       rw [exprCode_strict _ _ _ _ _ hop] at hcode ⊢
       rw [CodeAt.append, CodeAt.append] at hcode
       obtain ⟨⟨hc1, hc2⟩, hc3⟩ := hcode
       have hent := CodeAt.single.mp hc3
       simp only [List.length_append, List.length_singleton, ← Nat.add_assoc] at hent ⊢
-      have IH1 := ih l hl base loop st hc1
-      cases hr1 : evalExpr fuel eenv st.scope l with
+      have IH1 := ih l hl base loop st sc hsc hc1
+      cases hr1 : evalExpr fuel eenv sc l with
       | error err =>
         rw [evalExpr_strict_l _ _ _ _ _ _ hop _ hr1]
         rw [hr1] at IH1
-        exact IH1.error_of_sub (Run.nil _ _) Within.nil (Nat.le_refl _) (by omega) (by simp only [List.length_nil]; omega)
+        exact IH1.error_of_sub (Run.nil _ _) Within.nil (Nat.le_refl _) (by bnd) (by bnd)
       | ok a =>
         rw [hr1] at IH1
         obtain ⟨tr1, rg1, hrun1, hsp1, hw1, hl1⟩ := IH1
-        have IH2 : ExprOutcome rec venv vm c (evalExpr fuel eenv st.scope r) _ _ (st.push a rg1) :=
-          ih r hr _ loop (st.push a rg1) hc2
-        cases hr2 : evalExpr fuel eenv st.scope r with
+        have IH2 : ExprOutcome venv vm c lf (evalExpr fuel eenv sc r) _ _ (st.push a rg1) :=
+          ih r hr _ loop (st.push a rg1) sc hsc hc2
+        cases hr2 : evalExpr fuel eenv sc r with
         | error err =>
           rw [evalExpr_strict_r _ _ _ _ _ _ hop _ _ hr1 hr2]
           rw [hr2] at IH2
-          exact IH2.error_of_sub hrun1 (hw1.mono (Nat.le_refl _) (by omega)) (by omega) (by omega)
-            (by omega)
+          exact IH2.error_of_sub hrun1 (hw1.mono (Nat.le_refl _) (by bnd)) (by bnd) (by bnd)
+            (by bnd)
         | ok b =>
           rw [evalExpr_strict_ok _ _ _ _ _ _ hop _ _ hr1 hr2]
           rw [hr2] at IH2
           obtain ⟨tr2, rg2, hrun2, hsp2, hw2, hl2⟩ := IH2
-          have hB := binop_sim (rec := rec) hop hent hE ht st a rg1 b rg2 hsp1 hsp2
+          have hB := binop_sim hop hent hE ht st a rg1 b rg2 hsp1 hsp2
           cases hb : binop eenv op a b with
           | ok v =>
             rw [hb] at hB
             obtain ⟨rg, hrunB, hspB⟩ := hB
-            exact .ok_intro (tr1 ++ tr2 ++ [_]) rg ((hrun1.trans hrun2).trans hrunB) (by omega) hspB
-              (((hw1.mono (Nat.le_refl _) (by omega)).append (hw2.mono (by omega) (by omega))).append
-                (Within.single (by omega) (by omega)))
-              (by simp only [List.length_append, List.length_singleton]; omega)
+            exact .ok_intro (tr1 ++ tr2 ++ [_]) rg ((hrun1.trans hrun2).trans hrunB) (by bnd) hspB
+              (((hw1.mono (Nat.le_refl _) (by bnd)).append (hw2.mono (by bnd) (by bnd))).append
+                (Within.single (by bnd) (by bnd)))
+              (by bnd)
           | error err =>
             rw [hb] at hB
             obtain ⟨re, hf, hm⟩ := hB
             exact .error_intro (tr1 ++ tr2 ++ [_]) re ((hrun1.trans hrun2).fails hf) hm
-              (((hw1.mono (Nat.le_refl _) (by omega)).append (hw2.mono (by omega) (by omega))).append
-                (Within.single (by omega) (by omega)))
-              (by simp only [List.length_append, List.length_singleton]; omega)
+              (((hw1.mono (Nat.le_refl _) (by bnd)).append (hw2.mono (by bnd) (by bnd))).append
+                (Within.single (by bnd) (by bnd)))
+              (by bnd)
     | @and l r hl hr =>
-      intro base loop st hcode
+      intro base loop st sc hsc hcode
       rw [exprCode_and] at hcode ⊢
       rw [CodeAt.append, CodeAt.append] at hcode
       obtain ⟨⟨hc1, hc2⟩, hc3⟩ := hcode
       have hent := CodeAt.single.mp hc2
       simp only [List.length_append, List.length_singleton, ← Nat.add_assoc] at hc3 ⊢
-      have IH1 := ih l hl base loop st hc1
+      have IH1 := ih l hl base loop st sc hsc hc1
       simp only [evalExpr]
-      cases hr1 : evalExpr fuel eenv st.scope l with
+      cases hr1 : evalExpr fuel eenv sc l with
       | error err =>
         rw [hr1] at IH1
-        exact IH1.error_of_sub (Run.nil _ _) Within.nil (Nat.le_refl _) (by omega) (by simp only [List.length_nil]; omega)
+        exact IH1.error_of_sub (Run.nil _ _) Within.nil (Nat.le_refl _) (by bnd) (by bnd)
       | ok a =>
         rw [hr1] at IH1
         obtain ⟨tr1, rg1, hrun1, hsp1, hw1, hl1⟩ := IH1
@@ -361,29 +606,29 @@ theorem expr_step (hE : EnvRel venv eenv) (ht : reportTargetOk venv vm c = true)
         | false =>
           simp only [Bool.not_false, if_true]
           exact .ok_intro (tr1 ++ [_]) rg1
-            (hrun1.trans (run_jumpIfFalseOrPop_false hent st a rg1 hta)) (by omega) hsp1
-            ((hw1.mono (Nat.le_refl _) (by omega)).append (Within.single (by omega) (by omega)))
-            (by simp only [List.length_append, List.length_singleton]; omega)
+            (hrun1.trans (run_jumpIfFalseOrPop_false hent st a rg1 hta)) (by bnd) hsp1
+            ((hw1.mono (Nat.le_refl _) (by bnd)).append (Within.single (by bnd) (by bnd)))
+            (by bnd)
         | true =>
           simp only [Bool.not_true, Bool.false_eq_true, if_false]
-          have IH2 := ih r hr _ loop st hc3
+          have IH2 := ih r hr _ loop st sc hsc hc3
           exact IH2.tail (tr2 := []) (hrun1.trans (run_jumpIfFalseOrPop_true hent st a rg1 hta))
-            ((hw1.mono (Nat.le_refl _) (by omega)).append (Within.single (by omega) (by omega)))
-            (fun st' => (Run.nil _ st').cast (by omega)) Within.nil (by omega) (by omega)
-            (by simp only [List.length_append, List.length_singleton, List.length_nil]; omega)
+            ((hw1.mono (Nat.le_refl _) (by bnd)).append (Within.single (by bnd) (by bnd)))
+            (fun st' => (Run.nil _ st').cast (by bnd)) Within.nil (by bnd) (by bnd)
+            (by bnd)
     | @or l r hl hr =>
-      intro base loop st hcode
+      intro base loop st sc hsc hcode
       rw [exprCode_or] at hcode ⊢
       rw [CodeAt.append, CodeAt.append] at hcode
       obtain ⟨⟨hc1, hc2⟩, hc3⟩ := hcode
       have hent := CodeAt.single.mp hc2
       simp only [List.length_append, List.length_singleton, ← Nat.add_assoc] at hc3 ⊢
-      have IH1 := ih l hl base loop st hc1
+      have IH1 := ih l hl base loop st sc hsc hc1
       simp only [evalExpr]
-      cases hr1 : evalExpr fuel eenv st.scope l with
+      cases hr1 : evalExpr fuel eenv sc l with
       | error err =>
         rw [hr1] at IH1
-        exact IH1.error_of_sub (Run.nil _ _) Within.nil (Nat.le_refl _) (by omega) (by simp only [List.length_nil]; omega)
+        exact IH1.error_of_sub (Run.nil _ _) Within.nil (Nat.le_refl _) (by bnd) (by bnd)
       | ok a =>
         rw [hr1] at IH1
         obtain ⟨tr1, rg1, hrun1, hsp1, hw1, hl1⟩ := IH1
@@ -392,230 +637,1011 @@ theorem expr_step (hE : EnvRel venv eenv) (ht : reportTargetOk venv vm c = true)
         | true =>
           simp only [if_true]
           exact .ok_intro (tr1 ++ [_]) rg1
-            (hrun1.trans (run_jumpIfTrueOrPop_true hent st a rg1 hta)) (by omega) hsp1
-            ((hw1.mono (Nat.le_refl _) (by omega)).append (Within.single (by omega) (by omega)))
-            (by simp only [List.length_append, List.length_singleton]; omega)
+            (hrun1.trans (run_jumpIfTrueOrPop_true hent st a rg1 hta)) (by bnd) hsp1
+            ((hw1.mono (Nat.le_refl _) (by bnd)).append (Within.single (by bnd) (by bnd)))
+            (by bnd)
         | false =>
           simp only [Bool.false_eq_true, if_false]
-          have IH2 := ih r hr _ loop st hc3
+          have IH2 := ih r hr _ loop st sc hsc hc3
           exact IH2.tail (tr2 := []) (hrun1.trans (run_jumpIfTrueOrPop_false hent st a rg1 hta))
-            ((hw1.mono (Nat.le_refl _) (by omega)).append (Within.single (by omega) (by omega)))
-            (fun st' => (Run.nil _ st').cast (by omega)) Within.nil (by omega) (by omega)
-            (by simp only [List.length_append, List.length_singleton, List.length_nil]; omega)
+            ((hw1.mono (Nat.le_refl _) (by bnd)).append (Within.single (by bnd) (by bnd)))
+            (fun st' => (Run.nil _ st').cast (by bnd)) Within.nil (by bnd) (by bnd)
+            (by bnd)
     | @ternary cnd t f hcnd htr hfa =>
-      intro base loop st hcode
+      intro base loop st sc hsc hcode
       simp only [exprCode] at hcode ⊢
       rw [CodeAt.append, CodeAt.append, CodeAt.append, CodeAt.append] at hcode
       obtain ⟨⟨⟨⟨hc1, hc2⟩, hc3⟩, hc4⟩, hc5⟩ := hcode
       have hent2 := CodeAt.single.mp hc2
       have hent4 := CodeAt.single.mp hc4
       simp only [List.length_append, List.length_singleton, ← Nat.add_assoc] at hc3 hent4 hc5 ⊢
-      have IH1 := ih cnd hcnd base loop st hc1
+      have IH1 := ih cnd hcnd base loop st sc hsc hc1
       simp only [evalExpr]
-      cases hr1 : evalExpr fuel eenv st.scope cnd with
+      cases hr1 : evalExpr fuel eenv sc cnd with
       | error err =>
         rw [hr1] at IH1
-        exact IH1.error_of_sub (Run.nil _ _) Within.nil (Nat.le_refl _) (by omega) (by simp only [List.length_nil]; omega)
+        exact IH1.error_of_sub (Run.nil _ _) Within.nil (Nat.le_refl _) (by bnd) (by bnd)
       | ok a =>
         rw [hr1] at IH1
         obtain ⟨tr1, rg1, hrun1, hsp1, hw1, hl1⟩ := IH1
-        have hP := run_popJumpIfFalse (rec := rec) (venv := venv) (vm := vm) hent2 st a rg1
+        have hP := run_popJumpIfFalse (venv := venv) (vm := vm) hent2 st a rg1
         simp only
         cases hta : a.isTruthy with
         | true =>
           simp only [hta, if_true] at hP ⊢
-          have IH2 := ih t htr _ loop st hc3
+          have IH2 := ih t htr _ loop st sc hsc hc3
           exact IH2.tail (hrun1.trans hP)
-            ((hw1.mono (Nat.le_refl _) (by omega)).append (Within.single (by omega) (by omega)))
-            (fun st' => (run_jump hent4 st').cast (by omega))
-            (Within.single (by omega) (by omega)) (by omega) (by omega)
-            (by simp only [List.length_append, List.length_singleton]; omega)
+            ((hw1.mono (Nat.le_refl _) (by bnd)).append (Within.single (by bnd) (by bnd)))
+            (fun st' => (run_jump hent4 st').cast (by bnd))
+            (Within.single (by bnd) (by bnd)) (by bnd) (by bnd)
+            (by bnd)
         | false =>
           simp only [hta, Bool.false_eq_true, if_false] at hP ⊢
-          have IH3 := ih f hfa _ loop st hc5
+          have IH3 := ih f hfa _ loop st sc hsc hc5
           exact IH3.tail (tr2 := []) (hrun1.trans hP)
-            ((hw1.mono (Nat.le_refl _) (by omega)).append (Within.single (by omega) (by omega)))
-            (fun st' => (Run.nil _ st').cast (by omega)) Within.nil (by omega) (by omega)
-            (by simp only [List.length_append, List.length_singleton, List.length_nil]; omega)
+            ((hw1.mono (Nat.le_refl _) (by bnd)).append (Within.single (by bnd) (by bnd)))
+            (fun st' => (Run.nil _ st').cast (by bnd)) Within.nil (by bnd) (by bnd)
+            (by bnd)
 
     | @getItem e1 s1 opt h1 h2 =>
-      intro base loop st hcode
+      intro base loop st sc hsc hcode
       simp only [exprCode] at hcode ⊢
       rw [CodeAt.append, CodeAt.append] at hcode
       obtain ⟨⟨hc1, hc2⟩, hc3⟩ := hcode
       have hent := CodeAt.single.mp hc3
       simp only [List.length_append, List.length_singleton, ← Nat.add_assoc] at hent ⊢
-      have IH1 := ih e1 h1 base loop st hc1
-      cases hr1 : evalExpr fuel eenv st.scope e1 with
+      have IH1 := ih e1 h1 base loop st sc hsc hc1
+      cases hr1 : evalExpr fuel eenv sc e1 with
       | error err =>
-        have hval : evalExpr (fuel + 1) eenv st.scope (.getItem e1 s1 opt) = .error err := by
+        have hval : evalExpr (fuel + 1) eenv sc (.getItem e1 s1 opt) = .error err := by
           simp only [evalExpr, hr1]
         rw [hval]
         rw [hr1] at IH1
-        exact IH1.error_of_sub (Run.nil _ _) Within.nil (Nat.le_refl _) (by omega) (by simp only [List.length_nil]; omega)
+        exact IH1.error_of_sub (Run.nil _ _) Within.nil (Nat.le_refl _) (by bnd) (by bnd)
       | ok a =>
         rw [hr1] at IH1
         obtain ⟨tr1, rg1, hrun1, hsp1, hw1, hl1⟩ := IH1
-        have IH2 : ExprOutcome rec venv vm c (evalExpr fuel eenv st.scope s1) _ _ (st.push a rg1) :=
-          ih s1 h2 _ loop (st.push a rg1) hc2
-        cases hr2 : evalExpr fuel eenv st.scope s1 with
+        have IH2 : ExprOutcome venv vm c lf (evalExpr fuel eenv sc s1) _ _ (st.push a rg1) :=
+          ih s1 h2 _ loop (st.push a rg1) sc hsc hc2
+        cases hr2 : evalExpr fuel eenv sc s1 with
         | error err =>
-          have hval : evalExpr (fuel + 1) eenv st.scope (.getItem e1 s1 opt) = .error err := by
+          have hval : evalExpr (fuel + 1) eenv sc (.getItem e1 s1 opt) = .error err := by
             simp only [evalExpr, hr1, hr2]
           rw [hval]
           rw [hr2] at IH2
-          exact IH2.error_of_sub hrun1 (hw1.mono (Nat.le_refl _) (by omega)) (by omega) (by omega)
-            (by omega)
+          exact IH2.error_of_sub hrun1 (hw1.mono (Nat.le_refl _) (by bnd)) (by bnd) (by bnd)
+            (by bnd)
         | ok b =>
           rw [evalExpr_getItem_ok _ _ _ _ _ _ _ _ hr1 hr2]
           rw [hr2] at IH2
           obtain ⟨tr2, rg2, hrun2, hsp2, hw2, hl2⟩ := IH2
-          have hB := subscript_sim (rec := rec) hent ht st a rg1 b rg2 hsp1 hsp2
+          have hB := subscript_sim hent ht st a rg1 b rg2 hsp1 hsp2
           cases hb : itemTail opt a b with
           | ok v =>
             rw [hb] at hB
             obtain ⟨rg, hrunB, hspB⟩ := hB
-            exact .ok_intro (tr1 ++ tr2 ++ [_]) rg ((hrun1.trans hrun2).trans hrunB) (by omega) hspB
-              (((hw1.mono (Nat.le_refl _) (by omega)).append (hw2.mono (by omega) (by omega))).append
-                (Within.single (by omega) (by omega)))
-              (by simp only [List.length_append, List.length_singleton]; omega)
+            exact .ok_intro (tr1 ++ tr2 ++ [_]) rg ((hrun1.trans hrun2).trans hrunB) (by bnd) hspB
+              (((hw1.mono (Nat.le_refl _) (by bnd)).append (hw2.mono (by bnd) (by bnd))).append
+                (Within.single (by bnd) (by bnd)))
+              (by bnd)
           | error err =>
             rw [hb] at hB
             obtain ⟨re, hf, hm⟩ := hB
             exact .error_intro (tr1 ++ tr2 ++ [_]) re ((hrun1.trans hrun2).fails hf) hm
-              (((hw1.mono (Nat.le_refl _) (by omega)).append (hw2.mono (by omega) (by omega))).append
-                (Within.single (by omega) (by omega)))
-              (by simp only [List.length_append, List.length_singleton]; omega)
+              (((hw1.mono (Nat.le_refl _) (by bnd)).append (hw2.mono (by bnd) (by bnd))).append
+                (Within.single (by bnd) (by bnd)))
+              (by bnd)
     | @slice e0 start stop step opt h0 hstart hstop hstep =>
-      intro base loop st hcode
+      intro base loop st sc hsc hcode
       simp only [exprCode] at hcode ⊢
       rw [CodeAt.append, CodeAt.append, CodeAt.append, CodeAt.append] at hcode
       obtain ⟨⟨⟨⟨hc0, hc1⟩, hc2⟩, hc3⟩, hc4⟩ := hcode
       have hent := CodeAt.single.mp hc4
       simp only [List.length_append, List.length_singleton, ← Nat.add_assoc] at hc2 hc3 hent ⊢
-      have IH0 := ih e0 h0 base loop st hc0
-      cases hr0 : evalExpr fuel eenv st.scope e0 with
+      have IH0 := ih e0 h0 base loop st sc hsc hc0
+      cases hr0 : evalExpr fuel eenv sc e0 with
       | error err =>
-        have hval : evalExpr (fuel + 1) eenv st.scope (.slice e0 start stop step opt) = .error err := by
+        have hval : evalExpr (fuel + 1) eenv sc (.slice e0 start stop step opt) = .error err := by
           simp only [evalExpr, hr0]
         rw [hval]
         rw [hr0] at IH0
-        exact IH0.error_of_sub (Run.nil _ _) Within.nil (Nat.le_refl _) (by omega) (by simp only [List.length_nil]; omega)
+        exact IH0.error_of_sub (Run.nil _ _) Within.nil (Nat.le_refl _) (by bnd) (by bnd)
       | ok a =>
         rw [hr0] at IH0
         obtain ⟨tr0, rg0, hrun0, hsp0, hw0, hl0⟩ := IH0
-        have IH1 : OptOutcome rec venv vm c (evalOpt fuel eenv st.scope start .none) _ _ (st.push a rg0) :=
-          H.opt start hstart _ loop .none .none (st.push a rg0) hc1 ⟨none, rfl, rfl⟩
-        cases hr1 : evalOpt fuel eenv st.scope start .none with
+        have IH1 : OptOutcome venv vm c lf (evalOpt fuel eenv sc start .none) _ _ (st.push a rg0) :=
+          H.opt start hstart _ loop .none .none (st.push a rg0) sc hsc hc1 ⟨none, rfl, rfl⟩
+        cases hr1 : evalOpt fuel eenv sc start .none with
         | error err =>
-          have hval : evalExpr (fuel + 1) eenv st.scope (.slice e0 start stop step opt) = .error err := by
+          have hval : evalExpr (fuel + 1) eenv sc (.slice e0 start stop step opt) = .error err := by
             simp only [evalExpr, hr0, hr1]
           rw [hval]
           rw [hr1] at IH1
-          exact IH1.error_to_expr.error_of_sub hrun0 (hw0.mono (Nat.le_refl _) (by omega)) (by omega)
-            (by omega) (by omega)
+          exact IH1.error_to_expr.error_of_sub hrun0 (hw0.mono (Nat.le_refl _) (by bnd)) (by bnd)
+            (by bnd) (by bnd)
         | ok v1 =>
           rw [hr1] at IH1
           obtain ⟨tr1, w1, rg1, hrun1, hb1, hw1, hl1⟩ := IH1
-          have IH2 : OptOutcome rec venv vm c (evalOpt fuel eenv st.scope stop .none) _ _
+          have IH2 : OptOutcome venv vm c lf (evalOpt fuel eenv sc stop .none) _ _
               ((st.push a rg0).push w1 rg1) :=
-            H.opt stop hstop _ loop .none .none ((st.push a rg0).push w1 rg1) hc2 ⟨none, rfl, rfl⟩
-          cases hr2 : evalOpt fuel eenv st.scope stop .none with
+            H.opt stop hstop _ loop .none .none ((st.push a rg0).push w1 rg1) sc hsc hc2 ⟨none, rfl, rfl⟩
+          cases hr2 : evalOpt fuel eenv sc stop .none with
           | error err =>
-            have hval : evalExpr (fuel + 1) eenv st.scope (.slice e0 start stop step opt) = .error err := by
+            have hval : evalExpr (fuel + 1) eenv sc (.slice e0 start stop step opt) = .error err := by
               simp only [evalExpr, hr0, hr1, hr2]
             rw [hval]
             rw [hr2] at IH2
             exact IH2.error_to_expr.error_of_sub (hrun0.trans hrun1)
-              ((hw0.mono (Nat.le_refl _) (by omega)).append (hw1.mono (by omega) (by omega)))
-              (by omega) (by omega) (by simp only [List.length_append]; omega)
+              ((hw0.mono (Nat.le_refl _) (by bnd)).append (hw1.mono (by bnd) (by bnd)))
+              (by bnd) (by bnd) (by bnd)
           | ok v2 =>
             rw [hr2] at IH2
             obtain ⟨tr2, w2, rg2, hrun2, hb2, hw2, hl2⟩ := IH2
-            have IH3 : OptOutcome rec venv vm c (evalOpt fuel eenv st.scope step (.u64 1)) _ _
+            have IH3 : OptOutcome venv vm c lf (evalOpt fuel eenv sc step (.u64 1)) _ _
                 (((st.push a rg0).push w1 rg1).push w2 rg2) :=
-              H.opt step hstep _ loop (.i64 1) (.u64 1) (((st.push a rg0).push w1 rg1).push w2 rg2) hc3
+              H.opt step hstep _ loop (.i64 1) (.u64 1) (((st.push a rg0).push w1 rg1).push w2 rg2) sc hsc hc3
                 ⟨some 1, rfl, rfl⟩
-            cases hr3 : evalOpt fuel eenv st.scope step (.u64 1) with
+            cases hr3 : evalOpt fuel eenv sc step (.u64 1) with
             | error err =>
-              have hval : evalExpr (fuel + 1) eenv st.scope (.slice e0 start stop step opt) = .error err := by
+              have hval : evalExpr (fuel + 1) eenv sc (.slice e0 start stop step opt) = .error err := by
                 simp only [evalExpr, hr0, hr1, hr2, hr3]
               rw [hval]
               rw [hr3] at IH3
               exact IH3.error_to_expr.error_of_sub ((hrun0.trans hrun1).trans hrun2)
-                (((hw0.mono (Nat.le_refl _) (by omega)).append (hw1.mono (by omega) (by omega))).append
-                  (hw2.mono (by omega) (by omega)))
-                (by omega) (by omega) (by simp only [List.length_append]; omega)
+                (((hw0.mono (Nat.le_refl _) (by bnd)).append (hw1.mono (by bnd) (by bnd))).append
+                  (hw2.mono (by bnd) (by bnd)))
+                (by bnd) (by bnd) (by bnd)
             | ok v3 =>
               rw [hr3] at IH3
               obtain ⟨tr3, w3, rg3, hrun3, hb3, hw3, hl3⟩ := IH3
               rw [evalExpr_slice_ok _ _ _ _ _ _ _ _ _ _ _ _ hr0 hr1 hr2 hr3]
-              have hS := slice_sim (rec := rec) hent ht st a rg0 v1 w1 rg1 v2 w2 rg2 v3 w3 rg3 hsp0 hb1 hb2 hb3
+              have hS := slice_sim hent ht st a rg0 v1 w1 rg1 v2 w2 rg2 v3 w3 rg3 hsp0 hb1 hb2 hb3
               cases hb : sliceTail opt a v1 v2 v3 with
               | ok v =>
                 rw [hb] at hS
                 obtain ⟨rg, hrunS, hspS⟩ := hS
                 exact .ok_intro (tr0 ++ tr1 ++ tr2 ++ tr3 ++ [_]) rg
-                  ((((hrun0.trans hrun1).trans hrun2).trans hrun3).trans hrunS) (by omega) hspS
-                  (((((hw0.mono (Nat.le_refl _) (by omega)).append (hw1.mono (by omega) (by omega))).append
-                    (hw2.mono (by omega) (by omega))).append (hw3.mono (by omega) (by omega))).append
-                    (Within.single (by omega) (by omega)))
-                  (by simp only [List.length_append, List.length_singleton]; omega)
+                  ((((hrun0.trans hrun1).trans hrun2).trans hrun3).trans hrunS) (by bnd) hspS
+                  (((((hw0.mono (Nat.le_refl _) (by bnd)).append (hw1.mono (by bnd) (by bnd))).append
+                    (hw2.mono (by bnd) (by bnd))).append (hw3.mono (by bnd) (by bnd))).append
+                    (Within.single (by bnd) (by bnd)))
+                  (by bnd)
               | error err =>
                 rw [hb] at hS
                 obtain ⟨re, hf, hm⟩ := hS
                 exact .error_intro (tr0 ++ tr1 ++ tr2 ++ tr3 ++ [_]) re
                   ((((hrun0.trans hrun1).trans hrun2).trans hrun3).fails hf) hm
-                  (((((hw0.mono (Nat.le_refl _) (by omega)).append (hw1.mono (by omega) (by omega))).append
-                    (hw2.mono (by omega) (by omega))).append (hw3.mono (by omega) (by omega))).append
-                    (Within.single (by omega) (by omega)))
-                  (by simp only [List.length_append, List.length_singleton]; omega)
+                  (((((hw0.mono (Nat.le_refl _) (by bnd)).append (hw1.mono (by bnd) (by bnd))).append
+                    (hw2.mono (by bnd) (by bnd))).append (hw3.mono (by bnd) (by bnd))).append
+                    (Within.single (by bnd) (by bnd)))
+                  (by bnd)
 
-theorem opt_step (fuel : Nat) (H : SimAt rec venv vm c eenv fuel) :
-    ∀ (oe : Option Expr), (∀ x, oe = some x → InCore x) →
-    ∀ (base : Nat) (loop : Option Nat) (w dv : Value) (st : State),
+    | @array items hitems =>
+      intro base loop st sc hsc hcode
+      simp only [exprCode] at hcode ⊢
+      rw [CodeAt.append] at hcode
+      obtain ⟨hc1, hc2⟩ := hcode
+      have hent := CodeAt.single.mp hc2
+      simp only [List.length_append, List.length_singleton]
+      have IH := H.arr items hitems base loop st sc hsc hc1
+      simp only [evalExpr]
+      cases hr : evalArrayEntries fuel eenv sc items with
+      | error err =>
+        rw [hr] at IH
+        exact ExprOutcome.error_of_sub (show ExprOutcome venv vm c lf (.error err) _ _ st from IH)
+          (Run.nil _ _) Within.nil (Nat.le_refl _) (by bnd) (by bnd)
+      | ok parts =>
+        rw [hr] at IH
+        obtain ⟨tr1, stk, hrun1, hstk, hw1, hl1⟩ := IH
+        have hB := arrayBuild_sim hent ht st parts stk
+          (evalArrayEntries_flags eenv sc items fuel parts hr) hstk
+        simp only
+        cases hb : buildList parts with
+        | ok xs =>
+          rw [hb] at hB
+          simp only [Except.map]
+          exact .ok_intro (tr1 ++ [_]) _ (hrun1.trans hB) (by bnd) (spanOk_own hent)
+            ((hw1.mono (Nat.le_refl _) (by bnd)).append (Within.single (by bnd) (by bnd)))
+            (by bnd)
+        | error err =>
+          rw [hb] at hB
+          obtain ⟨re, hf, hm⟩ := hB
+          simp only [Except.map]
+          exact .error_intro (tr1 ++ [_]) re (hrun1.fails hf) hm
+            ((hw1.mono (Nat.le_refl _) (by bnd)).append (Within.single (by bnd) (by bnd)))
+            (by bnd)
+
+    | @map entries hentries =>
+      intro base loop st sc hsc hcode
+      simp only [exprCode] at hcode ⊢
+      rw [CodeAt.append] at hcode
+      obtain ⟨hc1, hc2⟩ := hcode
+      have hent := CodeAt.single.mp hc2
+      simp only [List.length_append, List.length_singleton]
+      have IH := H.mapE entries hentries base loop st sc hsc hc1
+      simp only [evalExpr]
+      cases hr : evalMapEntries fuel eenv sc entries with
+      | error err =>
+        rw [hr] at IH
+        exact ExprOutcome.error_of_sub (show ExprOutcome venv vm c lf (.error err) _ _ st from IH)
+          (Run.nil _ _) Within.nil (Nat.le_refl _) (by bnd) (by bnd)
+      | ok parts =>
+        rw [hr] at IH
+        obtain ⟨tr1, stk, hrun1, hstk, hw1, hl1⟩ := IH
+        have hB := mapBuild_sim hent ht st parts stk
+          (evalMapEntries_flags eenv sc entries fuel parts hr) hstk
+        simp only
+        cases hb : buildMap parts with
+        | ok m =>
+          rw [hb] at hB
+          simp only [Except.map]
+          exact .ok_intro (tr1 ++ [_]) _ (hrun1.trans hB) (by bnd) (spanOk_own hent)
+            ((hw1.mono (Nat.le_refl _) (by bnd)).append (Within.single (by bnd) (by bnd)))
+            (by bnd)
+        | error err =>
+          rw [hb] at hB
+          obtain ⟨re, hf, hm⟩ := hB
+          simp only [Except.map]
+          exact .error_intro (tr1 ++ [_]) re (hrun1.fails hf) hm
+            ((hw1.mono (Nat.le_refl _) (by bnd)).append (Within.single (by bnd) (by bnd)))
+            (by bnd)
+
+    | @filter e0 name kwargs h0 hkw hnd =>
+      intro base loop st sc hsc hcode
+      simp only [exprCode] at hcode ⊢
+      rw [CodeAt.append, CodeAt.append] at hcode
+      obtain ⟨⟨hc0, hc1⟩, hc2⟩ := hcode
+      simp only [CodeAt, List.length_append, ← Nat.add_assoc] at hc2
+      obtain ⟨hentB, hentF, _⟩ := hc2
+      simp only [List.length_append, List.length_cons, List.length_nil, ← Nat.add_assoc]
+      have IH0 := ih e0 h0 base loop st sc hsc hc0
+      cases hr0 : evalExpr fuel eenv sc e0 with
+      | error err =>
+        have hval : evalExpr (fuel + 1) eenv sc (.filter e0 name kwargs) = .error err := by
+          simp only [evalExpr, hr0]
+        rw [hval]
+        rw [hr0] at IH0
+        exact IH0.error_of_sub (Run.nil _ _) Within.nil (Nat.le_refl _) (by bnd) (by bnd)
+      | ok v =>
+        rw [hr0] at IH0
+        obtain ⟨tr0, rg0, hrun0, hsp0, hw0, hl0⟩ := IH0
+        have IH1 : KwOutcome venv vm c lf (evalKwargs fuel eenv sc kwargs) _ _ (st.push v rg0) :=
+          H.kw kwargs hkw _ loop (st.push v rg0) sc hsc hc1
+        cases hr1 : evalKwargs fuel eenv sc kwargs with
+        | error err =>
+          have hval : evalExpr (fuel + 1) eenv sc (.filter e0 name kwargs) = .error err := by
+            simp only [evalExpr, hr0, hr1]
+          rw [hval]
+          rw [hr1] at IH1
+          exact ExprOutcome.error_of_sub (show ExprOutcome venv vm c lf (.error err) _ _ _ from IH1) hrun0
+            (hw0.mono (Nat.le_refl _) (by bnd)) (by bnd) (by bnd) (by bnd)
+        | ok kw =>
+          have hval : evalExpr (fuel + 1) eenv sc (.filter e0 name kwargs)
+              = applyFilter eenv name v kw := by
+            simp only [evalExpr, hr0, hr1]
+          rw [hval]
+          rw [hr1] at IH1
+          obtain ⟨tr1, stk, hrun1, hstk, hw1, hl1⟩ := IH1
+          have hnames := evalKwargs_names eenv sc kwargs fuel kw hr1
+          have hd : (kw.map (·.1)).Nodup := by rw [hnames]; exact hnd
+          have hlen : kwargs.length = kw.length := by
+            have := congrArg List.length hnames; simpa using this.symm
+          have hrunB := run_buildKwargs (venv := venv) (vm := vm) hentB (st.push v rg0) kw stk
+            hlen hstk
+          have hF := filter_sim hentF hB ht st v rg0 kw
+            ((base + (exprCode base loop e0).length + (kwargsCode (base + (exprCode base loop e0).length) loop kwargs).length), (base + (exprCode base loop e0).length + (kwargsCode (base + (exprCode base loop e0).length) loop kwargs).length)) hd hsp0
+          cases hb : applyFilter eenv name v kw with
+          | ok r =>
+            rw [hb] at hF
+            exact .ok_intro (tr0 ++ tr1 ++ [_] ++ [_]) _ (((hrun0.trans hrun1).trans hrunB).trans hF)
+              (by bnd) (spanOk_own hentF)
+              ((((hw0.mono (Nat.le_refl _) (by bnd)).append (hw1.mono (by bnd) (by bnd))).append
+                (Within.single (by bnd) (by bnd))).append (Within.single (by bnd) (by bnd)))
+              (by bnd)
+          | error err =>
+            rw [hb] at hF
+            intro hrep
+            obtain ⟨re, hf, hm⟩ := hF hrep
+            exact ⟨tr0 ++ tr1 ++ [_] ++ [_], re, ((hrun0.trans hrun1).trans hrunB).fails hf, hm,
+              ((((hw0.mono (Nat.le_refl _) (by bnd)).append (hw1.mono (by bnd) (by bnd))).append
+                (Within.single (by bnd) (by bnd))).append (Within.single (by bnd) (by bnd))),
+              by bnd⟩
+    | @test e0 name kwargs h0 hkw hnd =>
+      intro base loop st sc hsc hcode
+      simp only [exprCode] at hcode ⊢
+      rw [CodeAt.append, CodeAt.append] at hcode
+      obtain ⟨⟨hc0, hc1⟩, hc2⟩ := hcode
+      simp only [CodeAt, List.length_append, ← Nat.add_assoc] at hc2
+      obtain ⟨hentB, hentF, _⟩ := hc2
+      simp only [List.length_append, List.length_cons, List.length_nil, ← Nat.add_assoc]
+      have IH0 := ih e0 h0 base loop st sc hsc hc0
+      cases hr0 : evalExpr fuel eenv sc e0 with
+      | error err =>
+        have hval : evalExpr (fuel + 1) eenv sc (.test e0 name kwargs) = .error err := by
+          simp only [evalExpr, hr0]
+        rw [hval]
+        rw [hr0] at IH0
+        exact IH0.error_of_sub (Run.nil _ _) Within.nil (Nat.le_refl _) (by bnd) (by bnd)
+      | ok v =>
+        rw [hr0] at IH0
+        obtain ⟨tr0, rg0, hrun0, hsp0, hw0, hl0⟩ := IH0
+        have IH1 : KwOutcome venv vm c lf (evalKwargs fuel eenv sc kwargs) _ _ (st.push v rg0) :=
+          H.kw kwargs hkw _ loop (st.push v rg0) sc hsc hc1
+        cases hr1 : evalKwargs fuel eenv sc kwargs with
+        | error err =>
+          have hval : evalExpr (fuel + 1) eenv sc (.test e0 name kwargs) = .error err := by
+            simp only [evalExpr, hr0, hr1]
+          rw [hval]
+          rw [hr1] at IH1
+          exact ExprOutcome.error_of_sub (show ExprOutcome venv vm c lf (.error err) _ _ _ from IH1) hrun0
+            (hw0.mono (Nat.le_refl _) (by bnd)) (by bnd) (by bnd) (by bnd)
+        | ok kw =>
+          have hval : evalExpr (fuel + 1) eenv sc (.test e0 name kwargs)
+              = (applyTest name v).map Value.bool := by
+            simp only [evalExpr, hr0, hr1]
+          rw [hval]
+          rw [hr1] at IH1
+          obtain ⟨tr1, stk, hrun1, hstk, hw1, hl1⟩ := IH1
+          have hnames := evalKwargs_names eenv sc kwargs fuel kw hr1
+          have hd : (kw.map (·.1)).Nodup := by rw [hnames]; exact hnd
+          have hlen : kwargs.length = kw.length := by
+            have := congrArg List.length hnames; simpa using this.symm
+          have hrunB := run_buildKwargs (venv := venv) (vm := vm) hentB (st.push v rg0) kw stk
+            hlen hstk
+          have hF := test_sim hentF hB ht st v rg0 kw
+            ((base + (exprCode base loop e0).length + (kwargsCode (base + (exprCode base loop e0).length) loop kwargs).length), (base + (exprCode base loop e0).length + (kwargsCode (base + (exprCode base loop e0).length) loop kwargs).length)) hd hsp0
+          cases hb : applyTest name v with
+          | ok r =>
+            rw [hb] at hF
+            simp only [Except.map]
+            exact .ok_intro (tr0 ++ tr1 ++ [_] ++ [_]) _ (((hrun0.trans hrun1).trans hrunB).trans hF)
+              (by bnd) (spanOk_own hentF)
+              ((((hw0.mono (Nat.le_refl _) (by bnd)).append (hw1.mono (by bnd) (by bnd))).append
+                (Within.single (by bnd) (by bnd))).append (Within.single (by bnd) (by bnd)))
+              (by bnd)
+          | error err =>
+            rw [hb] at hF
+            simp only [Except.map]
+            intro hrep
+            obtain ⟨re, hf, hm⟩ := hF hrep
+            exact ⟨tr0 ++ tr1 ++ [_] ++ [_], re, ((hrun0.trans hrun1).trans hrunB).fails hf, hm,
+              ((((hw0.mono (Nat.le_refl _) (by bnd)).append (hw1.mono (by bnd) (by bnd))).append
+                (Within.single (by bnd) (by bnd))).append (Within.single (by bnd) (by bnd))),
+              by bnd⟩
+    | @functionCall name kwargs hkw hnd =>
+      intro base loop st sc hsc hcode
+      simp only [exprCode] at hcode ⊢
+      rw [CodeAt.append] at hcode
+      obtain ⟨hc1, hc2⟩ := hcode
+      simp only [CodeAt, ← Nat.add_assoc] at hc2
+      obtain ⟨hentB, hentF, _⟩ := hc2
+      simp only [List.length_append, List.length_cons, List.length_nil, ← Nat.add_assoc]
+      have IH1 := H.kw kwargs hkw base loop st sc hsc hc1
+      cases hr1 : evalKwargs fuel eenv sc kwargs with
+      | error err =>
+        have hval : evalExpr (fuel + 1) eenv sc (.functionCall name kwargs) = .error err := by
+          simp only [evalExpr, hr1]
+        rw [hval]
+        rw [hr1] at IH1
+        exact ExprOutcome.error_of_sub (show ExprOutcome venv vm c lf (.error err) _ _ _ from IH1)
+          (Run.nil _ _) Within.nil (Nat.le_refl _) (by bnd) (by bnd)
+      | ok kw =>
+        have hval : evalExpr (fuel + 1) eenv sc (.functionCall name kwargs)
+            = applyFunction name kw := by
+          simp only [evalExpr, hr1]
+        rw [hval]
+        rw [hr1] at IH1
+        obtain ⟨tr1, stk, hrun1, hstk, hw1, hl1⟩ := IH1
+        have hnames := evalKwargs_names eenv sc kwargs fuel kw hr1
+        have hd : (kw.map (·.1)).Nodup := by rw [hnames]; exact hnd
+        have hlen : kwargs.length = kw.length := by
+          have := congrArg List.length hnames; simpa using this.symm
+        have hrunB := run_buildKwargs (venv := venv) (vm := vm) hentB st kw stk hlen hstk
+        have hF := function_sim hentF hB ht st kw ((base + (kwargsCode base loop kwargs).length), (base + (kwargsCode base loop kwargs).length)) hd
+        cases hb : applyFunction name kw with
+        | ok r =>
+          rw [hb] at hF
+          exact .ok_intro (tr1 ++ [_] ++ [_]) _ ((hrun1.trans hrunB).trans hF)
+            (by bnd) (spanOk_own hentF)
+            (((hw1.mono (Nat.le_refl _) (by bnd)).append
+              (Within.single (by bnd) (by bnd))).append (Within.single (by bnd) (by bnd)))
+            (by bnd)
+        | error err =>
+          rw [hb] at hF
+          intro hrep
+          obtain ⟨re, hf, hm⟩ := hF hrep
+          exact ⟨tr1 ++ [_] ++ [_], re, (hrun1.trans hrunB).fails hf, hm,
+            (((hw1.mono (Nat.le_refl _) (by bnd)).append
+              (Within.single (by bnd) (by bnd))).append (Within.single (by bnd) (by bnd))),
+            by bnd⟩
+
+    | @compr e0 target key value cond hlf he0 htarget hcond =>
+      intro base loop st sc hsc hcode
+      rw [exprCode_compr] at hcode ⊢
+      rw [CodeAt.append, CodeAt.append] at hcode
+      obtain ⟨⟨hcP, hcL⟩, hcE⟩ := hcode
+      have hentE := CodeAt.single.mp hcE
+      simp only [List.length_append, ← Nat.add_assoc] at hentE
+      simp only [comprPre] at hcP
+      rw [CodeAt.append, CodeAt.append, CodeAt.append] at hcP
+      obtain ⟨⟨⟨hcB, hcT⟩, hcS⟩, hcK⟩ := hcP
+      have hentB := CodeAt.single.mp hcB
+      simp only [CodeAt, List.length_append, List.length_singleton, ← Nat.add_assoc] at hcS
+      simp only [List.length_append, List.length_singleton, List.length_cons, List.length_nil,
+        ← Nat.add_assoc, Nat.add_zero] at hcT hcK
+      obtain ⟨hentS, hentV, _⟩ := hcS
+      have hnb : ∀ {n m : Nat}, lf = true → n ≤ m := fun h => by rw [hlf] at h; cases h
+      -- BuildList(0)
+      have hrunB := run_buildList0 (venv := venv) (vm := vm) hentB st
+      have hspB : SpanOk c (base, base) := spanOk_own hentB
+      -- the iterable
+      have IHt : ExprOutcome venv vm c lf (evalExpr fuel eenv sc target) _ _
+          (st.push (.arr []) (base, base)) :=
+        ih target htarget _ loop (st.push (.arr []) (base, base)) sc hsc hcT
+      have hlenP : (comprPre base loop key value target).length
+          = 1 + (exprCode (base + 1) loop target).length + 2 + (keyStore key).length := by
+        simp only [comprPre, List.length_append, List.length_singleton, List.length_cons,
+          List.length_nil]
+      have htot : (comprPre base loop key value target
+            ++ comprLoop (base + (comprPre base loop key value target).length) loop e0 cond
+            ++ [ns .popLoop]).length
+          = (comprPre base loop key value target).length
+            + (comprLoop (base + (comprPre base loop key value target).length) loop e0 cond).length + 1 := by
+        simp only [List.length_append, List.length_singleton]
+      have hpos : Within base (base + (comprPre base loop key value target
+          ++ comprLoop (base + (comprPre base loop key value target).length) loop e0 cond
+          ++ [ns .popLoop]).length) [base] :=
+        Within.single (Nat.le_refl _) (by rw [htot]; omega)
+      cases hrt : evalExpr fuel eenv sc target with
+      | error err =>
+        have hval : evalExpr (fuel + 1) eenv sc (.listComprehension e0 key value target cond)
+            = .error err := by simp only [evalExpr, hrt]
+        rw [hval]
+        rw [hrt] at IHt
+        exact IHt.error_of_sub hrunB hpos (by omega) (by rw [htot]; omega) hnb
+      | ok tv =>
+        rw [hrt] at IHt
+        obtain ⟨trT, rgT, hrunT, hspT, hwT, _⟩ := IHt
+        have hS := startIterate_sim (compr := true) hentS ht (st.push (.arr []) (base, base))
+          tv rgT hspT
+        have hwide : ∀ {tr : List Nat} {lo hi : Nat}, Within lo hi tr → base ≤ lo →
+            hi ≤ base + (comprPre base loop key value target
+              ++ comprLoop (base + (comprPre base loop key value target).length) loop e0 cond
+              ++ [ns .popLoop]).length →
+            Within base (base + (comprPre base loop key value target
+              ++ comprLoop (base + (comprPre base loop key value target).length) loop e0 cond
+              ++ [ns .popLoop]).length) tr := fun h h1 h2 => h.mono h1 h2
+        cases hit : iterItems tv with
+        | none =>
+          have hval : evalExpr (fuel + 1) eenv sc (.listComprehension e0 key value target cond)
+              = .error .iteration := by simp only [evalExpr, hrt, hit]
+          rw [hval]
+          rw [hit] at hS
+          exact .error_intro ([base] ++ trT ++ [_]) .iteration ((hrunB.trans hrunT).fails hS) rfl
+            ((hpos.append (hwide hwT (by omega) (by rw [htot]; omega))).append
+              (Within.single (by omega) (by rw [htot]; omega))) hnb
+        | some items =>
+          rw [hit] at hS
+          simp only at hS
+          by_cases hk : (key.isSome && !tv.isMap) = true
+          · have hval : evalExpr (fuel + 1) eenv sc (.listComprehension e0 key value target cond)
+                = .error .iteration := by simp only [evalExpr, hrt, hit, hk, if_true]
+            rw [hval]
+            rw [if_pos hk] at hS
+            exact .error_intro ([base] ++ trT ++ [_]) .iteration ((hrunB.trans hrunT).fails hS) rfl
+              ((hpos.append (hwide hwT (by omega) (by rw [htot]; omega))).append
+                (Within.single (by omega) (by rw [htot]; omega))) hnb
+          · rw [if_neg hk] at hS
+            -- the loop variables
+            have hV := run_storeLocal (venv := venv) (vm := vm) hentV
+              { st.push (.arr []) (base, base) with
+                scope := st.scope.pushLoop (ForLoop.new items true) }
+              (ForLoop.new items true) st.scope.forLoops (by simp)
+            simp only [setTopLoop_pushLoop] at hV
+            -- `l`: the loop both models enter with
+            obtain ⟨l, trK, hrunK, hlE, hwK, hlenK⟩ : ∃ (l : ForLoop) (trK : List Nat),
+                Run venv vm c (base + 1 + (exprCode (base + 1) loop target).length + 1 + 1)
+                  { st.push (.arr []) (base, base) with
+                    scope := st.scope.pushLoop ((ForLoop.new items true).storeLocalName value) }
+                  trK (base + (comprPre base loop key value target).length)
+                  { st.push (.arr []) (base, base) with scope := st.scope.pushLoop l }
+                ∧ l = (match key with
+                    | none => (ForLoop.new items true).storeLocalName value
+                    | some k => ((ForLoop.new items true).storeLocalName value).storeLocalName k)
+                ∧ Within (base + 1 + (exprCode (base + 1) loop target).length + 1 + 1)
+                    (base + (comprPre base loop key value target).length) trK
+                ∧ trK.length = (keyStore key).length := by
+              cases key with
+              | none =>
+                refine ⟨_, [], (Run.nil _ _).cast ?_, rfl, Within.nil, rfl⟩
+                rw [hlenP]; simp only [keyStore, List.length_nil]; omega
+              | some k =>
+                simp only [keyStore, CodeAt, List.length_append, List.length_singleton,
+                  List.length_cons, List.length_nil, ← Nat.add_assoc] at hcK
+                have hK := run_storeLocal (venv := venv) (vm := vm) hcK.1
+                  { st.push (.arr []) (base, base) with
+                    scope := st.scope.pushLoop ((ForLoop.new items true).storeLocalName value) }
+                  ((ForLoop.new items true).storeLocalName value) st.scope.forLoops (by simp)
+                simp only [setTopLoop_pushLoop] at hK
+                refine ⟨_, [_], hK.cast ?_, rfl, Within.single (by omega) ?_, rfl⟩
+                · rw [hlenP]; simp only [keyStore, List.length_singleton]; omega
+                · rw [hlenP]; simp only [keyStore, List.length_singleton]; omega
+            -- the loop
+            have hscL : ScopeSim (sc.pushLoop l) (st.scope.pushLoop l) := hsc.pushLoop (LoopSim.refl l)
+            have IHL := H.compr e0 cond he0 hcond _ loop
+              { st with scope := st.scope.pushLoop l } (sc.pushLoop l) [] (base, base) hscL hcL
+            have hval : evalExpr (fuel + 1) eenv sc (.listComprehension e0 key value target cond)
+                = (evalCompr fuel eenv (sc.pushLoop l) e0 cond []).map Value.arr := by
+              simp only [evalExpr, hrt, hit, hk, Bool.false_eq_true, if_false]
+              rw [hlE]
+              cases key <;> rfl
+            rw [hval]
+            have hpre : Run venv vm c base st
+                ([base] ++ trT ++ [base + 1 + (exprCode (base + 1) loop target).length] ++ [base + 1 + (exprCode (base + 1) loop target).length + 1] ++ trK)
+                (base + (comprPre base loop key value target).length)
+                { st.push (.arr []) (base, base) with scope := st.scope.pushLoop l } :=
+              (((hrunB.trans hrunT).trans hS).trans hV).trans hrunK
+            have hwpre : Within base (base + (comprPre base loop key value target
+                  ++ comprLoop (base + (comprPre base loop key value target).length) loop e0 cond
+                  ++ [ns .popLoop]).length)
+                ([base] ++ trT ++ [base + 1 + (exprCode (base + 1) loop target).length] ++ [base + 1 + (exprCode (base + 1) loop target).length + 1] ++ trK) :=
+              ((((hpos.append (hwide hwT (by omega) (by rw [htot]; omega))).append
+                (Within.single (by omega) (by rw [htot]; omega))).append
+                (Within.single (by omega) (by rw [htot]; omega))).append
+                (hwide hwK (by omega) (by rw [htot]; omega)))
+            cases hrc : evalCompr fuel eenv (sc.pushLoop l) e0 cond [] with
+            | error err =>
+              rw [hrc] at IHL
+              simp only [Except.map]
+              intro hrep
+              obtain ⟨trL, re, hf, hm, hwL⟩ := IHL hrep
+              exact ⟨_, re, hpre.fails hf, hm,
+                hwpre.append (hwide hwL (by omega) (by rw [htot]; omega)), hnb⟩
+            | ok res =>
+              rw [hrc] at IHL
+              obtain ⟨trL, sc', hrunL, hpop, hwL⟩ := IHL
+              simp only [Except.map]
+              have hE := run_popLoop (venv := venv) (vm := vm) hentE
+                { st.push (.arr res) (base, base) with scope := sc' }
+              have hpop' : sc'.popLoop = st.scope := by
+                rw [hpop]; exact popLoop_pushLoop _ _
+              have hfin : ({ st.push (.arr res) (base, base) with scope := sc'.popLoop } : State)
+                  = st.push (.arr res) (base, base) := by
+                rw [hpop']; rfl
+              have hrunAll := (hpre.trans hrunL).trans hE
+              exact .ok_intro _ (base, base) (by rw [← hfin]; exact hrunAll) (by rw [htot]; omega) hspB
+                ((hwpre.append (hwide hwL (by omega) (by rw [htot]; omega))).append
+                  (Within.single (by omega) (by rw [htot]; omega))) hnb
+
+theorem compr_step (fuel : Nat) (H : SimAt venv vm c lf eenv fuel) :
+    ∀ (e : Expr) (cond : Option Expr), InCore lf e → (∀ x, cond = some x → InCore lf x) →
+    ∀ (startIdx : Nat) (loop : Option Nat) (st : State) (sc : Scope) (acc : List Value)
+      (rl : SpanRange), ScopeSim sc st.scope →
+    CodeAt c startIdx (comprLoop startIdx loop e cond) →
+    ComprOutcome venv vm c (evalCompr (fuel + 1) eenv sc e cond acc) startIdx
+      (comprLoop startIdx loop e cond).length st acc rl := by
+  intro e cond he hcond startIdx loop st sc acc rl hsc hcode
+  have hlen : (comprLoop startIdx loop e cond).length = 1 + (comprBody startIdx loop e cond).length + 1 := by
+    simp only [comprLoop, List.length_append, List.length_singleton]
+  have hcode' := hcode
+  simp only [comprLoop] at hcode'
+  rw [CodeAt.append, CodeAt.append] at hcode'
+  obtain ⟨⟨hcI, hcB⟩, hcJ⟩ := hcode'
+  have hentI := CodeAt.single.mp hcI
+  have hentJ := CodeAt.single.mp hcJ
+  simp only [List.length_append, List.length_singleton, ← Nat.add_assoc] at hentJ hcB
+  simp only [evalCompr]
+  have hloops : LoopsSim sc.forLoops st.scope.forLoops := hsc.1
+  cases hlE : sc.forLoops with
+  | nil => intro h; simp [reportable] at h
+  | cons l ls =>
+    cases hlV : st.scope.forLoops with
+    | nil => rw [hlE, hlV] at hloops; exact hloops.elim
+    | cons lv lvs =>
+      rw [hlE, hlV] at hloops
+      have hls : LoopSim l lv := hloops.1
+      simp only
+      rcases hls.iterate (t := startIdx + 1 + (comprBody startIdx loop e cond).length + 1) (by omega) with
+        ⟨h1, h2⟩ | ⟨a, b, h1, h2, hab⟩
+      · -- the loop is over
+        simp only [h1]
+        refine ⟨[startIdx], st.scope,
+          (run_iterate_over hentI (st.push (.arr acc) rl) lv lvs hlV h2).cast (by rw [hlen]; omega),
+          rfl, Within.single (Nat.le_refl _) (by rw [hlen]; omega)⟩
+      · simp only [h1]
+        have hsc1 : ScopeSim (sc.setTopLoop a) (st.scope.setTopLoop b) := hsc.setTopLoop hab
+        have hrunI : Run venv vm c startIdx (st.push (.arr acc) rl) [startIdx] (startIdx + 1)
+            (({ st with scope := st.scope.setTopLoop b } : State).push (.arr acc) rl) :=
+          run_iterate_next hentI (st.push (.arr acc) rl) lv b lvs hlV h2
+        have hpopT : ∀ (sc' : Scope), sc'.popLoop = (st.scope.setTopLoop b).popLoop →
+            sc'.popLoop = st.scope.popLoop := fun sc' h => by rw [h, popLoop_setTopLoop]
+        have hwI : Within startIdx (startIdx + (comprLoop startIdx loop e cond).length) [startIdx] :=
+          Within.single (Nat.le_refl _) (by rw [hlen]; omega)
+        -- the tail of every iteration: `Jump(start_idx)`, then the rest of the loop
+        have tailK : ∀ (acc' : List Value) (tr0 : List Nat),
+            Run venv vm c startIdx (st.push (.arr acc) rl) tr0
+              (startIdx + 1 + (comprBody startIdx loop e cond).length)
+              (({ st with scope := st.scope.setTopLoop b } : State).push (.arr acc') rl) →
+            Within startIdx (startIdx + (comprLoop startIdx loop e cond).length) tr0 →
+            ComprOutcome venv vm c (evalCompr fuel eenv (sc.setTopLoop a) e cond acc') startIdx
+              (comprLoop startIdx loop e cond).length st acc rl := by
+          intro acc' tr0 hrun0 hw0
+          have hJ := run_jump (venv := venv) (vm := vm) hentJ
+            (({ st with scope := st.scope.setTopLoop b } : State).push (.arr acc') rl)
+          have IH := H.compr e cond he hcond startIdx loop { st with scope := st.scope.setTopLoop b }
+            (sc.setTopLoop a) acc' rl hsc1 hcode
+          cases hr : evalCompr fuel eenv (sc.setTopLoop a) e cond acc' with
+          | error err =>
+            rw [hr] at IH
+            intro hrep
+            obtain ⟨trL, re, hf, hm, hwL⟩ := IH hrep
+            exact ⟨tr0 ++ [_] ++ trL, re, (hrun0.trans hJ).fails hf, hm,
+              (hw0.append (Within.single (by omega) (by rw [hlen]; omega))).append hwL⟩
+          | ok res =>
+            rw [hr] at IH
+            obtain ⟨trL, sc', hrunL, hpop, hwL⟩ := IH
+            exact ⟨tr0 ++ [_] ++ trL, sc', (hrun0.trans hJ).trans hrunL, hpopT sc' hpop,
+              (hw0.append (Within.single (by omega) (by rw [hlen]; omega))).append hwL⟩
+        cases cond with
+        | none =>
+          simp only
+          rw [comprBody_none] at hcB
+          rw [CodeAt.append] at hcB
+          obtain ⟨hcE, hcA⟩ := hcB
+          have hentA := CodeAt.single.mp hcA
+          have hbl : (comprBody startIdx loop e none).length = (exprCode (startIdx + 1) loop e).length + 1 := by
+            rw [comprBody_none]; simp only [List.length_append, List.length_singleton]
+          have IHe : ExprOutcome venv vm c lf (evalExpr fuel eenv (sc.setTopLoop a) e) _ _
+              (({ st with scope := st.scope.setTopLoop b } : State).push (.arr acc) rl) :=
+            H.expr e he _ loop (({ st with scope := st.scope.setTopLoop b } : State).push (.arr acc) rl)
+              (sc.setTopLoop a) hsc1 hcE
+          cases hre : evalExpr fuel eenv (sc.setTopLoop a) e with
+          | error err =>
+            rw [hre] at IHe
+            intro hrep
+            obtain ⟨trE, re, hf, hm, hwE, _⟩ := IHe hrep
+            exact ⟨[startIdx] ++ trE, re, hrunI.fails hf, hm,
+              hwI.append (hwE.mono (by omega) (by rw [hlen, hbl]; omega))⟩
+          | ok x =>
+            rw [hre] at IHe
+            obtain ⟨trE, rgE, hrunE, _, hwE, _⟩ := IHe
+            have hA := run_appendToList (venv := venv) (vm := vm) hentA
+              { st with scope := st.scope.setTopLoop b } acc rl x rgE
+            simp only
+            exact tailK (acc ++ [x]) ([startIdx] ++ trE ++ [_])
+              (((hrunI.trans hrunE).trans hA).cast (by rw [hbl]; omega))
+              ((hwI.append (hwE.mono (by omega) (by rw [hlen, hbl]; omega))).append
+                (Within.single (by omega) (by rw [hlen, hbl]; omega)))
+        | some cnd =>
+          have hcnd : InCore lf cnd := hcond cnd rfl
+          rw [comprBody_some] at hcB
+          rw [CodeAt.append, CodeAt.append, CodeAt.append] at hcB
+          obtain ⟨⟨⟨hcC, hcP⟩, hcE⟩, hcA⟩ := hcB
+          have hentP := CodeAt.single.mp hcP
+          have hentA := CodeAt.single.mp hcA
+          simp only [List.length_append, List.length_singleton, ← Nat.add_assoc] at hcE hentA
+          have hbl : (comprBody startIdx loop e (some cnd)).length
+              = (exprCode (startIdx + 1) loop cnd).length + 1
+                + (exprCode (startIdx + 1 + (exprCode (startIdx + 1) loop cnd).length + 1) loop e).length + 1 := by
+            rw [comprBody_some]; simp only [List.length_append, List.length_singleton]
+          have IHc : ExprOutcome venv vm c lf (evalExpr fuel eenv (sc.setTopLoop a) cnd) _ _
+              (({ st with scope := st.scope.setTopLoop b } : State).push (.arr acc) rl) :=
+            H.expr cnd hcnd _ loop (({ st with scope := st.scope.setTopLoop b } : State).push (.arr acc) rl)
+              (sc.setTopLoop a) hsc1 hcC
+          simp only
+          cases hrc : evalExpr fuel eenv (sc.setTopLoop a) cnd with
+          | error err =>
+            rw [hrc] at IHc
+            simp only [Except.map]
+            intro hrep
+            obtain ⟨trC, re, hf, hm, hwC, _⟩ := IHc hrep
+            exact ⟨[startIdx] ++ trC, re, hrunI.fails hf, hm,
+              hwI.append (hwC.mono (by omega) (by rw [hlen, hbl]; omega))⟩
+          | ok cv =>
+            rw [hrc] at IHc
+            obtain ⟨trC, rgC, hrunC, _, hwC, _⟩ := IHc
+            have hP := run_popJumpIfFalse (venv := venv) (vm := vm) hentP
+              (({ st with scope := st.scope.setTopLoop b } : State).push (.arr acc) rl) cv rgC
+            simp only [Except.map]
+            cases htc : cv.isTruthy with
+            | false =>
+              simp only [htc, Bool.false_eq_true, if_false] at hP
+              simp only
+              exact tailK acc ([startIdx] ++ trC ++ [_])
+                (((hrunI.trans hrunC).trans hP).cast (by rw [hbl]; omega))
+                ((hwI.append (hwC.mono (by omega) (by rw [hlen, hbl]; omega))).append
+                  (Within.single (by omega) (by rw [hlen, hbl]; omega)))
+            | true =>
+              simp only [htc, if_true] at hP
+              simp only
+              have IHe : ExprOutcome venv vm c lf (evalExpr fuel eenv (sc.setTopLoop a) e) _ _
+                  (({ st with scope := st.scope.setTopLoop b } : State).push (.arr acc) rl) :=
+                H.expr e he _ loop (({ st with scope := st.scope.setTopLoop b } : State).push (.arr acc) rl)
+                  (sc.setTopLoop a) hsc1 hcE
+              cases hre : evalExpr fuel eenv (sc.setTopLoop a) e with
+              | error err =>
+                rw [hre] at IHe
+                intro hrep
+                obtain ⟨trE, re, hf, hm, hwE, _⟩ := IHe hrep
+                exact ⟨[startIdx] ++ trC ++ [_] ++ trE, re, ((hrunI.trans hrunC).trans hP).fails hf, hm,
+                  ((hwI.append (hwC.mono (by omega) (by rw [hlen, hbl]; omega))).append
+                    (Within.single (by omega) (by rw [hlen, hbl]; omega))).append
+                    (hwE.mono (by omega) (by rw [hlen, hbl]; omega))⟩
+              | ok x =>
+                rw [hre] at IHe
+                obtain ⟨trE, rgE, hrunE, _, hwE, _⟩ := IHe
+                have hA := run_appendToList (venv := venv) (vm := vm) hentA
+                  { st with scope := st.scope.setTopLoop b } acc rl x rgE
+                simp only
+                exact tailK (acc ++ [x]) ([startIdx] ++ trC ++ [_] ++ trE ++ [_])
+                  (((((hrunI.trans hrunC).trans hP).trans hrunE).trans hA).cast (by rw [hbl]; omega))
+                  (((((hwI.append (hwC.mono (by omega) (by rw [hlen, hbl]; omega))).append
+                    (Within.single (by omega) (by rw [hlen, hbl]; omega))).append
+                    (hwE.mono (by omega) (by rw [hlen, hbl]; omega))).append
+                    (Within.single (by omega) (by rw [hlen, hbl]; omega))))
+
+theorem kw_step (fuel : Nat) (H : SimAt venv vm c lf eenv fuel) :
+    ∀ (kwargs : List (String × Expr)), (∀ p ∈ kwargs, InCore lf p.2) →
+    ∀ (base : Nat) (loop : Option Nat) (st : State) (sc : Scope), ScopeSim sc st.scope →
+    CodeAt c base (kwargsCode base loop kwargs) →
+    KwOutcome venv vm c lf (evalKwargs (fuel + 1) eenv sc kwargs) base
+      (kwargsCode base loop kwargs).length st := by
+  intro kwargs hkw base loop st sc hsc hcode
+  cases kwargs with
+  | nil =>
+    simp only [evalKwargs, kwargsCode, List.length_nil]
+    exact ⟨[], st.stack, Run.nil _ _, MapStack.nil _, Within.nil, by bnd⟩
+  | cons entry rest =>
+    obtain ⟨n, e⟩ := entry
+    have hrest : ∀ p ∈ rest, InCore lf p.2 := fun p hp => hkw p (by simp [hp])
+    have he : InCore lf e := hkw (n, e) (by simp)
+    simp only [kwargsCode] at hcode ⊢
+    simp only [evalKwargs]
+    rw [CodeAt.append, CodeAt.append] at hcode
+    obtain ⟨⟨hc0, hc1⟩, hc2⟩ := hcode
+    have hent := CodeAt.single.mp hc0
+    simp only [List.length_append, List.length_singleton, ← Nat.add_assoc] at hc1 hc2 ⊢
+    have hrun0 := run_loadConst (venv := venv) (vm := vm) hent st
+    have IH1 : ExprOutcome venv vm c lf (evalExpr fuel eenv sc e) _ _
+        (st.push (nameValue n) (base, base)) :=
+      H.expr e he _ loop (st.push (nameValue n) (base, base)) sc hsc hc1
+    cases hr1 : evalExpr fuel eenv sc e with
+    | error err =>
+      rw [hr1] at IH1
+      exact ExprOutcome.error_of_sub IH1 hrun0 (Within.single (Nat.le_refl _) (by bnd)) (by bnd)
+        (by bnd) (by bnd)
+    | ok v =>
+      rw [hr1] at IH1
+      obtain ⟨tr1, rg1, hrun1, hsp1, hw1, hl1⟩ := IH1
+      have IH2 : KwOutcome venv vm c lf (evalKwargs fuel eenv sc rest) _ _
+          ((st.push (nameValue n) (base, base)).push v rg1) :=
+        H.kw rest hrest _ loop ((st.push (nameValue n) (base, base)).push v rg1) sc hsc hc2
+      simp only
+      cases hr2 : evalKwargs fuel eenv sc rest with
+      | error err =>
+        rw [hr2] at IH2
+        simp only [Except.map]
+        exact ExprOutcome.error_of_sub (show ExprOutcome venv vm c lf (.error err) _ _ _ from IH2)
+          (hrun0.trans hrun1)
+          ((Within.single (Nat.le_refl _) (by bnd)).append (hw1.mono (by bnd) (by bnd)))
+          (by bnd) (by bnd) (by bnd)
+      | ok kw' =>
+        rw [hr2] at IH2
+        obtain ⟨tr2, stk, hrun2, hstk, hw2, hl2⟩ := IH2
+        simp only [Except.map]
+        refine ⟨[base] ++ tr1 ++ tr2, stk, ((hrun0.trans hrun1).trans hrun2).cast (by bnd), ?_,
+          ((Within.single (Nat.le_refl _) (by bnd)).append (hw1.mono (by bnd) (by bnd))).append
+            (hw2.mono (by bnd) (by bnd)),
+          by bnd⟩
+        exact MapStack.consKV (k := Key.str n.toList) (rk := (base, base)) hstk
+
+theorem mapE_step (fuel : Nat) (H : SimAt venv vm c lf eenv fuel) :
+    ∀ (entries : List MapEntry), (∀ en ∈ entries, InCore lf (mapEntryExpr en)) →
+    ∀ (base : Nat) (loop : Option Nat) (st : State) (sc : Scope), ScopeSim sc st.scope →
+    CodeAt c base (mapItemsCode base loop entries) →
+    MapOutcome venv vm c lf (evalMapEntries (fuel + 1) eenv sc entries) base
+      (mapItemsCode base loop entries).length st := by
+  intro entries hentries base loop st sc hsc hcode
+  cases entries with
+  | nil =>
+    simp only [evalMapEntries, mapItemsCode, List.length_nil]
+    exact ⟨[], st.stack, Run.nil _ _, MapStack.nil _, Within.nil, by bnd⟩
+  | cons entry rest =>
+    have hrest : ∀ en ∈ rest, InCore lf (mapEntryExpr en) := fun en hen => hentries en (by simp [hen])
+    cases entry with
+    | keyValue k e =>
+      have he : InCore lf e := hentries (.keyValue k e) (by simp)
+      simp only [mapItemsCode] at hcode ⊢
+      simp only [evalMapEntries]
+      rw [CodeAt.append, CodeAt.append] at hcode
+      obtain ⟨⟨hc0, hc1⟩, hc2⟩ := hcode
+      have hent := CodeAt.single.mp hc0
+      simp only [List.length_append, List.length_singleton, ← Nat.add_assoc] at hc1 hc2 ⊢
+      have hrun0 := run_loadConst (venv := venv) (vm := vm) hent st
+      have IH1 : ExprOutcome venv vm c lf (evalExpr fuel eenv sc e) _ _
+          (st.push (keyValue k) (base, base)) :=
+        H.expr e he _ loop (st.push (keyValue k) (base, base)) sc hsc hc1
+      cases hr1 : evalExpr fuel eenv sc e with
+      | error err =>
+        rw [hr1] at IH1
+        exact ExprOutcome.error_of_sub IH1 hrun0 (Within.single (Nat.le_refl _) (by bnd)) (by bnd)
+          (by bnd) (by bnd)
+      | ok v =>
+        rw [hr1] at IH1
+        obtain ⟨tr1, rg1, hrun1, hsp1, hw1, hl1⟩ := IH1
+        have IH2 : MapOutcome venv vm c lf (evalMapEntries fuel eenv sc rest) _ _
+            ((st.push (keyValue k) (base, base)).push v rg1) :=
+          H.mapE rest hrest _ loop ((st.push (keyValue k) (base, base)).push v rg1) sc hsc hc2
+        simp only
+        cases hr2 : evalMapEntries fuel eenv sc rest with
+        | error err =>
+          rw [hr2] at IH2
+          simp only [Except.map]
+          exact ExprOutcome.error_of_sub (show ExprOutcome venv vm c lf (.error err) _ _ _ from IH2)
+            (hrun0.trans hrun1)
+            ((Within.single (Nat.le_refl _) (by bnd)).append (hw1.mono (by bnd) (by bnd)))
+            (by bnd) (by bnd) (by bnd)
+        | ok parts' =>
+          rw [hr2] at IH2
+          obtain ⟨tr2, stk, hrun2, hstk, hw2, hl2⟩ := IH2
+          simp only [Except.map]
+          exact ⟨[base] ++ tr1 ++ tr2, stk, ((hrun0.trans hrun1).trans hrun2).cast (by bnd),
+            MapStack.consKV hstk,
+            ((Within.single (Nat.le_refl _) (by bnd)).append (hw1.mono (by bnd) (by bnd))).append
+              (hw2.mono (by bnd) (by bnd)),
+            by bnd⟩
+    | spread e =>
+      have he : InCore lf e := hentries (.spread e) (by simp)
+      simp only [mapItemsCode] at hcode ⊢
+      simp only [evalMapEntries]
+      rw [CodeAt.append] at hcode
+      obtain ⟨hc1, hc2⟩ := hcode
+      simp only [List.length_append]
+      have IH1 := H.expr e he base loop st sc hsc hc1
+      cases hr1 : evalExpr fuel eenv sc e with
+      | error err =>
+        rw [hr1] at IH1
+        exact ExprOutcome.error_of_sub IH1 (Run.nil _ _) Within.nil (Nat.le_refl _) (by bnd)
+          (by bnd)
+      | ok v =>
+        rw [hr1] at IH1
+        obtain ⟨tr1, rg1, hrun1, hsp1, hw1, hl1⟩ := IH1
+        have IH2 : MapOutcome venv vm c lf (evalMapEntries fuel eenv sc rest) _ _ (st.push v rg1) :=
+          H.mapE rest hrest _ loop (st.push v rg1) sc hsc hc2
+        simp only
+        cases hr2 : evalMapEntries fuel eenv sc rest with
+        | error err =>
+          rw [hr2] at IH2
+          simp only [Except.map]
+          exact ExprOutcome.error_of_sub (show ExprOutcome venv vm c lf (.error err) _ _ _ from IH2) hrun1
+            (hw1.mono (Nat.le_refl _) (by bnd)) (by bnd) (by bnd) (by bnd)
+        | ok parts' =>
+          rw [hr2] at IH2
+          obtain ⟨tr2, stk, hrun2, hstk, hw2, hl2⟩ := IH2
+          simp only [Except.map]
+          exact ⟨tr1 ++ tr2, stk, (hrun1.trans hrun2).cast (by bnd), MapStack.consSpread hsp1 hstk,
+            (hw1.mono (Nat.le_refl _) (by bnd)).append (hw2.mono (by bnd) (by bnd)),
+            by bnd⟩
+
+theorem arr_step (fuel : Nat) (H : SimAt venv vm c lf eenv fuel) :
+    ∀ (items : List ArrayEntry), (∀ it ∈ items, InCore lf (entryExpr it)) →
+    ∀ (base : Nat) (loop : Option Nat) (st : State) (sc : Scope), ScopeSim sc st.scope →
+    CodeAt c base (arrayItemsCode base loop items) →
+    ArrOutcome venv vm c lf (evalArrayEntries (fuel + 1) eenv sc items) base
+      (arrayItemsCode base loop items).length st := by
+  intro items hitems base loop st sc hsc hcode
+  cases items with
+  | nil =>
+    simp only [evalArrayEntries, arrayItemsCode, List.length_nil]
+    exact ⟨[], st.stack, Run.nil _ _, ArrStack.nil _, Within.nil, by bnd⟩
+  | cons entry rest =>
+    have key : ∀ (f : Bool) (e : Expr), InCore lf e →
+        CodeAt c base (exprCode base loop e ++ arrayItemsCode (base + (exprCode base loop e).length) loop rest) →
+        ArrOutcome venv vm c lf
+          (match evalExpr fuel eenv sc e with
+            | .error x => .error x
+            | .ok v => (evalArrayEntries fuel eenv sc rest).map ((f, v) :: ·)) base
+          (exprCode base loop e ++ arrayItemsCode (base + (exprCode base loop e).length) loop rest).length st := by
+      intro f e he hcode
+      rw [CodeAt.append] at hcode
+      obtain ⟨hc1, hc2⟩ := hcode
+      simp only [List.length_append]
+      have IH1 := H.expr e he base loop st sc hsc hc1
+      cases hr1 : evalExpr fuel eenv sc e with
+      | error err =>
+        rw [hr1] at IH1
+        exact ExprOutcome.error_of_sub IH1 (Run.nil _ _) Within.nil (Nat.le_refl _) (by bnd)
+          (by bnd)
+      | ok v =>
+        rw [hr1] at IH1
+        obtain ⟨tr1, rg1, hrun1, hsp1, hw1, hl1⟩ := IH1
+        have IH2 : ArrOutcome venv vm c lf (evalArrayEntries fuel eenv sc rest) _ _ (st.push v rg1) :=
+          H.arr rest (fun it hit => hitems it (by simp [hit])) _ loop (st.push v rg1) sc hsc hc2
+        simp only
+        cases hr2 : evalArrayEntries fuel eenv sc rest with
+        | error err =>
+          rw [hr2] at IH2
+          simp only [Except.map]
+          exact ExprOutcome.error_of_sub (show ExprOutcome venv vm c lf (.error err) _ _ _ from IH2) hrun1
+            (hw1.mono (Nat.le_refl _) (by bnd)) (by bnd) (by bnd) (by bnd)
+        | ok parts' =>
+          rw [hr2] at IH2
+          obtain ⟨tr2, stk, hrun2, hstk, hw2, hl2⟩ := IH2
+          simp only [Except.map]
+          exact ⟨tr1 ++ tr2, stk, (hrun1.trans hrun2).cast (by bnd), ArrStack.cons hsp1 hstk,
+            (hw1.mono (Nat.le_refl _) (by bnd)).append (hw2.mono (by bnd) (by bnd)),
+            by bnd⟩
+    cases entry with
+    | item e =>
+      simp only [arrayItemsCode] at hcode ⊢
+      simp only [evalArrayEntries]
+      exact key false e (hitems (.item e) (by simp)) hcode
+    | spread e =>
+      simp only [arrayItemsCode] at hcode ⊢
+      simp only [evalArrayEntries]
+      exact key true e (hitems (.spread e) (by simp)) hcode
+
+theorem opt_step (fuel : Nat) (H : SimAt venv vm c lf eenv fuel) :
+    ∀ (oe : Option Expr), (∀ x, oe = some x → InCore lf x) →
+    ∀ (base : Nat) (loop : Option Nat) (w dv : Value) (st : State) (sc : Scope), ScopeSim sc st.scope →
     CodeAt c base (optExprCode base loop (.loadConst w) oe) →
     (∃ b, Tera.sliceBound dv = .ok b ∧ Vm.sliceBound w = .val b) →
-    OptOutcome rec venv vm c (evalOpt (fuel + 1) eenv st.scope oe dv) base
+    OptOutcome venv vm c lf (evalOpt (fuel + 1) eenv sc oe dv) base
       (optExprCode base loop (.loadConst w) oe).length st := by
-  intro oe hoe base loop w dv st hcode hb
+  intro oe hoe base loop w dv st sc hsc hcode hb
   cases oe with
   | none =>
     simp only [optExprCode, CodeAt] at hcode
     simp only [evalOpt, optExprCode, List.length_singleton]
     exact ⟨[base], w, (base, base), run_loadConst hcode.1 st, .inr hb,
-      Within.single (Nat.le_refl _) (by omega), by simp⟩
+      Within.single (Nat.le_refl _) (by bnd), by bnd⟩
   | some e =>
     simp only [optExprCode] at hcode ⊢
     simp only [evalOpt]
-    have h := H.expr e (hoe e rfl) base loop st hcode
-    cases hr : evalExpr fuel eenv st.scope e with
+    have h := H.expr e (hoe e rfl) base loop st sc hsc hcode
+    cases hr : evalExpr fuel eenv sc e with
     | error err => rw [hr] at h; exact h
     | ok v =>
       rw [hr] at h
       obtain ⟨tr, rg, hrun, hsp, hw, hl⟩ := h
       exact ⟨tr, v, rg, hrun, .inl ⟨rfl, hsp⟩, hw, hl⟩
 
-theorem simAt (hE : EnvRel venv eenv) (ht : reportTargetOk venv vm c = true) :
-    ∀ fuel, SimAt rec venv vm c eenv fuel := by
+theorem simAt (hE : EnvRel venv eenv) (hB : BuiltinsRel venv eenv)
+    (ht : reportTargetOk venv vm c = true) :
+    ∀ fuel, SimAt venv vm c lf eenv fuel := by
   intro fuel
   induction fuel with
   | zero =>
-    refine ⟨?_, ?_⟩
-    · intro e _ base loop st _
+    refine ⟨?_, ?_, ?_, ?_, ?_, ?_⟩
+    · intro e _ base loop st sc _ _
       simp only [evalExpr]
       intro h; simp [reportable] at h
-    · intro oe _ base loop w dv st _ _
+    · intro oe _ base loop w dv st sc _ _ _
       simp only [evalOpt]
       intro h; simp [reportable] at h
-  | succ fuel ih => exact ⟨expr_step hE ht fuel ih, opt_step fuel ih⟩
+    · intro items _ base loop st sc _ _
+      simp only [evalArrayEntries]
+      intro h; simp [reportable] at h
+    · intro entries _ base loop st sc _ _
+      simp only [evalMapEntries]
+      intro h; simp [reportable] at h
+    · intro kwargs _ base loop st sc _ _
+      simp only [evalKwargs]
+      intro h; simp [reportable] at h
+    · intro e cond _ _ startIdx loop st sc acc rl _ _
+      simp only [evalCompr]
+      intro h; simp [reportable] at h
+  | succ fuel ih =>
+    exact ⟨expr_step hE hB ht fuel ih, opt_step fuel ih, arr_step fuel ih, mapE_step fuel ih,
+      kw_step fuel ih, compr_step fuel ih⟩
 
 /-- the simulation theorem for expressions -/
-theorem expr_sim (hE : EnvRel venv eenv) (ht : reportTargetOk venv vm c = true) :
-    ∀ (fuel : Nat) (e : Expr), InCore e → ∀ (base : Nat) (loop : Option Nat) (st : State),
+theorem expr_sim (hE : EnvRel venv eenv) (hB : BuiltinsRel venv eenv)
+    (ht : reportTargetOk venv vm c = true) :
+    ∀ (fuel : Nat) (e : Expr), InCore lf e → ∀ (base : Nat) (loop : Option Nat) (st : State) (sc : Scope), ScopeSim sc st.scope →
       CodeAt c base (exprCode base loop e) →
-      ExprOutcome rec venv vm c (evalExpr fuel eenv st.scope e) base (exprCode base loop e).length st :=
-  fun fuel => (simAt hE ht fuel).expr
+      ExprOutcome venv vm c lf (evalExpr fuel eenv sc e) base (exprCode base loop e).length st :=
+  fun fuel => (simAt hE hB ht fuel).expr
 
 end
 end Tera.Refine
